@@ -105,6 +105,17 @@ Proof.
   rewrite sqrt_mult; [|nra|apply vnorm2_nonneg]. rewrite sqrt_square by exact Hs. reflexivity.
 Qed.
 
+(* ------------------------------------------------------------------ matrices *)
+Notation RM := (@mat R).
+Lemma mvmul_vadd (m : RM) (a b : RV) : mvmul Rops m (vadd Rops a b) = vadd Rops (mvmul Rops m a) (mvmul Rops m b).
+Proof. destruct m as [[r1 r2] r3]. vd. unfold mvmul. vu. f_equal; [f_equal|]; ring. Qed.
+Lemma mvmul_vscale (m : RM) s (a : RV) : mvmul Rops m (vscale Rops s a) = vscale Rops s (mvmul Rops m a).
+Proof. destruct m as [[r1 r2] r3]. vd. unfold mvmul. vu. f_equal; [f_equal|]; ring. Qed.
+Lemma mvmul_0 (m : RM) : mvmul Rops m v0 = v0.
+Proof. destruct m as [[r1 r2] r3]. unfold v0. vd. unfold mvmul. vu. f_equal; [f_equal|]; ring. Qed.
+(* rotation matrices: R R^T = identity *)
+Definition orthogonal (m : RM) : Prop := forall v : RV, mvmul Rops m (mtvmul Rops m v) = v.
+
 (* ------------------------------------------------------------------ sums *)
 Lemma tsum_app (l r : list R) : tsum Rops (l ++ r) = tsum Rops l + tsum Rops r.
 Proof. unfold tsum. induction l as [|a l IH]; cbn [fold_right app]; [rs; ring|]. rewrite IH. rs. ring. Qed.
@@ -277,10 +288,11 @@ Qed.
 
 (* ================================================================== components *)
 Section Components.
+  Variable cell : option RV.
   Variable mass : nat -> R.
   Variable pos : RF.
-  Local Notation ft := (cvc_ft Rops PI mass pos).
-  Local Notation app := (cvc_apply Rops PI mass pos).
+  Local Notation ft := (cvc_ft Rops PI cell mass pos).
+  Local Notation app := (cvc_apply Rops PI cell mass pos).
 
   Ltac gf :=
     repeat rewrite gforce_fadd;
@@ -297,16 +309,16 @@ Section Components.
     ft (CDistance g1 g2 false) (app (CDistance g1 g2 false) fc) = fc.
   Proof.
     intros H1 H2 D. cbn [cvc_ft cvc_apply].
-    set (u := vunit Rops (dist_v Rops mass pos g1 g2)). gf.
-    pose proof (vunit_dot (dist_v Rops mass pos g1 g2)) as Hu. fold u in Hu.
+    set (u := vunit Rops (dist_v Rops cell mass pos g1 g2)). gf.
+    pose proof (vunit_dot (dist_v Rops cell mass pos g1 g2)) as Hu. fold u in Hu.
     unfold v0 in *. vd. vu. by_unit Hu.
   Qed.
   Lemma inv_distance_onesite g1 g2 fc : gok mass g1 -> disj g1 g2 ->
     ft (CDistance g1 g2 true) (app (CDistance g1 g2 true) fc) = fc.
   Proof.
     intros H1 D. cbn [cvc_ft cvc_apply].
-    set (u := vunit Rops (dist_v Rops mass pos g1 g2)). gf.
-    pose proof (vunit_dot (dist_v Rops mass pos g1 g2)) as Hu. fold u in Hu.
+    set (u := vunit Rops (dist_v Rops cell mass pos g1 g2)). gf.
+    pose proof (vunit_dot (dist_v Rops cell mass pos g1 g2)) as Hu. fold u in Hu.
     unfold v0 in *. vd. vu. by_unit Hu.
   Qed.
 
@@ -327,7 +339,7 @@ Section Components.
     ft (CDistanceZ gm gr (Some g2) axis os) (app (CDistanceZ gm gr (Some g2) axis os) fc) = fc.
   Proof.
     intros H1 D1 D2. cbn [cvc_ft cvc_apply dz_axis].
-    set (w := vsub Rops (gcom Rops mass pos g2) (gcom Rops mass pos gr)).
+    set (w := pdist Rops cell (gcom Rops mass pos gr) (gcom Rops mass pos g2)).
     pose proof (vunit_dot w) as Hu. set (u := vunit Rops w) in *. gf.
     unfold v0 in *. vd. vu. by_unit Hu.
   Qed.
@@ -336,12 +348,12 @@ Section Components.
   Lemma inv_distanceXY_gen gm gr gr2 axis os fc :
     gok mass gm -> (gr2 = None -> os = false -> gok mass gr) -> disj gm gr ->
     (forall g2, gr2 = Some g2 -> disj gm g2) ->
-    dxy_value Rops mass pos gm gr gr2 axis <> 0 ->
+    dxy_value Rops cell mass pos gm gr gr2 axis <> 0 ->
     ft (CDistanceXY gm gr gr2 axis os) (app (CDistanceXY gm gr gr2 axis os) fc) = fc.
   Proof.
     intros H1 H2 D1 D2 Hx. cbn [cvc_ft cvc_apply].
-    set (x := dxy_value Rops mass pos gm gr gr2 axis) in *.
-    set (dvo := dxy_ortho Rops mass pos gm gr gr2 axis).
+    set (x := dxy_value Rops cell mass pos gm gr gr2 axis) in *.
+    set (dvo := dxy_ortho Rops cell mass pos gm gr gr2 axis).
     assert (Hs : x * x = vdot Rops dvo dvo) by (apply vnorm_sq).
     assert (Hn : neqb Rops x (n0 Rops) = false).
     { rs. destruct (Reqb' x 0) eqn:E; [apply Reqb_true in E; contradiction|reflexivity]. }
@@ -358,19 +370,19 @@ Section Components.
 
   (* ---- angle ---- *)
   Lemma inv_angle g1 g2 g3 fc : gok mass g1 -> gok mass g3 -> disj g1 g2 -> disj g1 g3 -> disj g3 g2 ->
-    vnorm2 Rops (ang_dxdr1 Rops PI mass pos g1 g2 g3) + vnorm2 Rops (ang_dxdr3 Rops PI mass pos g1 g2 g3) <> 0 ->
+    vnorm2 Rops (ang_dxdr1 Rops PI cell mass pos g1 g2 g3) + vnorm2 Rops (ang_dxdr3 Rops PI cell mass pos g1 g2 g3) <> 0 ->
     ft (CAngle g1 g2 g3 false) (app (CAngle g1 g2 g3 false) fc) = fc.
   Proof.
     intros H1 H3 D12 D13 D32 Hn. cbn [cvc_ft cvc_apply].
-    set (d1 := ang_dxdr1 Rops PI mass pos g1 g2 g3) in *. set (d3 := ang_dxdr3 Rops PI mass pos g1 g2 g3) in *. gf.
+    set (d1 := ang_dxdr1 Rops PI cell mass pos g1 g2 g3) in *. set (d3 := ang_dxdr3 Rops PI cell mass pos g1 g2 g3) in *. gf.
     unfold v0 in *. vd. vu. field. exact Hn.
   Qed.
   Lemma inv_angle_onesite g1 g2 g3 fc : gok mass g1 -> disj g1 g2 -> disj g1 g3 ->
-    vnorm2 Rops (ang_dxdr1 Rops PI mass pos g1 g2 g3) <> 0 ->
+    vnorm2 Rops (ang_dxdr1 Rops PI cell mass pos g1 g2 g3) <> 0 ->
     ft (CAngle g1 g2 g3 true) (app (CAngle g1 g2 g3 true) fc) = fc.
   Proof.
     intros H1 D12 D13 Hn. cbn [cvc_ft cvc_apply].
-    set (d1 := ang_dxdr1 Rops PI mass pos g1 g2 g3) in *. set (d3 := ang_dxdr3 Rops PI mass pos g1 g2 g3) in *. gf.
+    set (d1 := ang_dxdr1 Rops PI cell mass pos g1 g2 g3) in *. set (d3 := ang_dxdr3 Rops PI cell mass pos g1 g2 g3) in *. gf.
     unfold v0 in *. vd. vu. field. exact Hn.
   Qed.
 
@@ -408,14 +420,14 @@ Section Components.
 
   Lemma inv_dihedral g1 g2 g3 g4 fc :
     gok mass g1 -> gok mass g4 -> disj g1 g2 -> disj g1 g3 -> disj g1 g4 -> disj g4 g2 -> disj g4 g3 ->
-    0 < vnorm2 Rops (vcross Rops (dih_r12 Rops mass pos g1 g2) (dih_r12 Rops mass pos g2 g3)) ->
-    0 < vnorm2 Rops (vcross Rops (dih_r12 Rops mass pos g2 g3) (dih_r12 Rops mass pos g3 g4)) ->
+    0 < vnorm2 Rops (vcross Rops (dih_r12 Rops cell mass pos g1 g2) (dih_r12 Rops cell mass pos g2 g3)) ->
+    0 < vnorm2 Rops (vcross Rops (dih_r12 Rops cell mass pos g2 g3) (dih_r12 Rops cell mass pos g3 g4)) ->
     ft (CDihedral g1 g2 g3 g4 false) (app (CDihedral g1 g2 g3 g4 false) fc) = fc.
   Proof.
     intros H1 H4 D12 D13 D14 D42 D43 HA HB. cbn [cvc_ft cvc_apply]. gf.
     unfold dih_fact1, dih_cross1, dih_fact4, dih_cross4, dih_f1, dih_f3.
-    set (r12 := dih_r12 Rops mass pos g1 g2) in *. set (r23 := dih_r12 Rops mass pos g2 g3) in *.
-    set (r34 := dih_r12 Rops mass pos g3 g4) in *.
+    set (r12 := dih_r12 Rops cell mass pos g1 g2) in *. set (r23 := dih_r12 Rops cell mass pos g2 g3) in *.
+    set (r34 := dih_r12 Rops cell mass pos g3 g4) in *.
     assert (HA' : 0 < vnorm2 Rops (vcross Rops r23 r12)) by (rewrite vcross_anti, vnorm2_vneg; exact HA).
     rs. rewrite (dih_factor r12 r23) by exact HA'. rewrite (dih_factor r34 r23) by exact HB.
     rewrite (vcross_anti r23 r12).
@@ -427,12 +439,12 @@ Section Components.
   Qed.
   Lemma inv_dihedral_onesite g1 g2 g3 g4 fc :
     gok mass g1 -> disj g1 g2 -> disj g1 g3 -> disj g1 g4 ->
-    0 < vnorm2 Rops (vcross Rops (dih_r12 Rops mass pos g1 g2) (dih_r12 Rops mass pos g2 g3)) ->
+    0 < vnorm2 Rops (vcross Rops (dih_r12 Rops cell mass pos g1 g2) (dih_r12 Rops cell mass pos g2 g3)) ->
     ft (CDihedral g1 g2 g3 g4 true) (app (CDihedral g1 g2 g3 g4 true) fc) = fc.
   Proof.
     intros H1 D12 D13 D14 HA. cbn [cvc_ft cvc_apply]. gf.
     unfold dih_fact1, dih_cross1, dih_f1.
-    set (r12 := dih_r12 Rops mass pos g1 g2) in *. set (r23 := dih_r12 Rops mass pos g2 g3) in *.
+    set (r12 := dih_r12 Rops cell mass pos g1 g2) in *. set (r23 := dih_r12 Rops cell mass pos g2 g3) in *.
     assert (HA' : 0 < vnorm2 Rops (vcross Rops r23 r12)) by (rewrite vcross_anti, vnorm2_vneg; exact HA).
     rs. rewrite (dih_factor r12 r23) by exact HA'.
     rewrite (vcross_anti r23 r12).
@@ -588,35 +600,110 @@ Section Components.
   Qed.
 End Components.
 
-(* ================================================================== linearity, locality, support: every component *)
-Section General.
+(* ================================================================== rotated frames (rotation matrix = input, assumed orthogonal) *)
+Section Rotated.
+  Variable cell : option RV.
   Variable mass : nat -> R.
   Variable pos : RF.
-  Local Notation ft := (cvc_ft Rops PI mass pos).
-  Local Notation app := (cvc_apply Rops PI mass pos).
+  Local Notation ft := (cvc_ft Rops PI cell mass pos).
+  Local Notation app := (cvc_apply Rops PI cell mass pos).
+
+  Lemma frot_aapply (m : RM) ids gs fc b :
+    frot Rops m (aapply Rops ids gs fc) b = aapply Rops ids (map (mvmul Rops m) gs) fc b.
+  Proof.
+    unfold frot. revert gs; induction ids as [|a ids IH]; intros [|g gs]; cbn [aapply map]; try apply mvmul_0.
+    rewrite mvmul_vadd, IH. f_equal. destruct (Nat.eqb b a); [apply mvmul_vscale | apply mvmul_0].
+  Qed.
+  Lemma map_orthogonal (m : RM) (g : list RV) : orthogonal m -> map (mvmul Rops m) (map (mtvmul Rops m) g) = g.
+  Proof. intros H. rewrite map_map. rewrite <- (map_id g) at 2. apply map_ext. intros v. apply H. Qed.
+  Lemma rot_frame_length ids refs (m : RM) : length (rot_frame Rops pos ids refs m) = length ids.
+  Proof. unfold rot_frame. rewrite map_length. reflexivity. Qed.
+
+  Lemma inv_rmsd_rot ids refs rotf jdf fc : NoDup ids -> length refs = length ids -> orthogonal (rotf pos) ->
+    rmsdrot_value Rops pos ids refs (rotf pos) <> 0 ->
+    ft (CRmsdRot ids refs rotf jdf) (app (CRmsdRot ids refs rotf jdf) fc) = fc.
+  Proof.
+    intros Hn Hl Ho Hx. cbn [cvc_ft cvc_apply]. set (Rm := rotf pos) in *.
+    assert (Hne : ids <> []).
+    { intros ->. apply Hx. unfold rmsdrot_value, norm2_sum, rmsdrot_diff, rot_frame, tsum. cbn [map fold_right length vsub_list]; rs.
+      unfold Rdiv; rewrite Rmult_0_l; apply sqrt_0. }
+    assert (HN : 0 < ofnat Rops (length ids)) by (apply ofnat_pos; destruct ids; [contradiction|cbn; lia]).
+    set (D := rmsdrot_diff Rops pos ids refs Rm) in *.
+    assert (HD : length D = length ids).
+    { unfold D, rmsdrot_diff. rewrite vsub_list_length; rewrite rot_frame_length; [reflexivity|exact Hl]. }
+    assert (Hsq : rmsdrot_value Rops pos ids refs Rm * rmsdrot_value Rops pos ids refs Rm = norm2_sum Rops D / ofnat Rops (length ids)).
+    { unfold rmsdrot_value; rs. fold D. apply sqrt_sqrt. apply Rmult_le_pos; [apply norm2_sum_nonneg|].
+      apply Rlt_le, Rinv_0_lt_compat, HN. }
+    unfold rmsdrot_grads. fold D. set (x := rmsdrot_value Rops pos ids refs Rm) in *.
+    assert (Hxp : 0 < x).
+    { assert (0 <= x) by (unfold x, rmsdrot_value; rs; apply sqrt_pos). lra. }
+    rs. assert (Rltb 0 x = true) as -> by (apply Rltb_true; exact Hxp).
+    set (N := ofnat Rops (length ids)) in *. set (k := 1 / 2 / (x * N) * 2).
+    set (g := map (vscale Rops k) D).
+    assert (Hg : length g = length ids) by (unfold g; rewrite map_length; exact HD).
+    rewrite (adot_ext ids g _ (aapply Rops ids (map (mvmul Rops Rm) (map (mtvmul Rops Rm) g)) fc))
+      by (intros b _; apply frot_aapply).
+    rewrite map_orthogonal by exact Ho.
+    rewrite adot_aapply by assumption.
+    assert (Hgg : dot_list Rops g g = k * k * norm2_sum Rops D) by (unfold g; rewrite dot_list_scale, dot_list_self; reflexivity).
+    rewrite Hgg.
+    assert (HS : norm2_sum Rops D = N * (x * x)) by (rewrite Hsq; field; lra).
+    rewrite HS. unfold k. field. split; lra.
+  Qed.
+
+  Lemma inv_eigenvector_rot ids refs evec rotf jdf fc : NoDup ids -> length evec = length ids -> orthogonal (rotf pos) ->
+    norm2_sum Rops (eig_vec Rops evec) <> 0 ->
+    ft (CEigenvectorRot ids refs evec rotf jdf) (app (CEigenvectorRot ids refs evec rotf jdf) fc) = fc.
+  Proof.
+    intros Hn Hl Ho Hs. cbn [cvc_ft cvc_apply]. set (Rm := rotf pos) in *.
+    set (E := eig_vec Rops evec) in *.
+    assert (HE : length E = length ids) by (unfold E, eig_vec; rewrite map_length; exact Hl).
+    rewrite (adot_ext ids _ _ (aapply Rops ids (map (mvmul Rops Rm) (map (mtvmul Rops Rm) E)) fc))
+      by (intros b _; apply frot_aapply).
+    rewrite map_orthogonal by exact Ho.
+    rewrite adot_aapply by (try exact Hn; rewrite ?map_length; exact HE).
+    rewrite dot_list_scale_l, dot_list_self. unfold eig_invnorm2. fold E. rs. field. exact Hs.
+  Qed.
+End Rotated.
+
+(* ================================================================== linearity, locality, support: every component *)
+Section General.
+  Variable cell : option RV.
+  Variable mass : nat -> R.
+  Variable pos : RF.
+  Local Notation ft := (cvc_ft Rops PI cell mass pos).
+  Local Notation app := (cvc_apply Rops PI cell mass pos).
 
   Lemma cvc_ft_linear (c : RC) (F G : RF) a b :
     ft c (fadd Rops (fscale Rops a F) (fscale Rops b G)) = a * ft c F + b * ft c G.
   Proof.
-    destruct c as [g1 g2 os|gm gr gr2 axis os|gm gr gr2 axis os|g1 g2 g3 os|g1 g2 g3 g4 os|ids|ids refs c|ids refs evec c];
+    destruct c as [g1 g2 os|gm gr gr2 axis os|gm gr gr2 axis os|g1 g2 g3 os|g1 g2 g3 g4 os|ids|ids refs c|ids refs evec c|ids refs rotf jdf|ids refs evec rotf jdf];
       cbn [cvc_ft]; rewrite ?gforce_fadd, ?gforce_fscale, ?adot_fadd, ?adot_fscale.
     - set (u := vunit Rops _). set (x := gforce Rops F g1). set (y := gforce Rops G g1).
       set (x' := gforce Rops F g2). set (y' := gforce Rops G g2). destruct os; vd; vu; unfold Rdiv; ring.
-    - set (u := dz_axis Rops mass pos gr gr2 axis). set (x := gforce Rops F gm). set (y := gforce Rops G gm).
+    - set (u := dz_axis Rops cell mass pos gr gr2 axis). set (x := gforce Rops F gm). set (y := gforce Rops G gm).
       set (x' := gforce Rops F gr). set (y' := gforce Rops G gr). destruct gr2, os; vd; vu; unfold Rdiv; ring.
-    - set (u := dxy_ortho Rops mass pos gm gr gr2 axis). set (xv := dxy_value Rops mass pos gm gr gr2 axis).
+    - set (u := dxy_ortho Rops cell mass pos gm gr gr2 axis). set (xv := dxy_value Rops cell mass pos gm gr gr2 axis).
       set (x := gforce Rops F gm). set (y := gforce Rops G gm).
       set (x' := gforce Rops F gr). set (y' := gforce Rops G gr). destruct gr2, os; vd; vu; unfold Rdiv; ring.
-    - set (d1 := ang_dxdr1 Rops PI mass pos g1 g2 g3). set (d3 := ang_dxdr3 Rops PI mass pos g1 g2 g3).
+    - set (d1 := ang_dxdr1 Rops PI cell mass pos g1 g2 g3). set (d3 := ang_dxdr3 Rops PI cell mass pos g1 g2 g3).
       set (x := gforce Rops F g1). set (y := gforce Rops G g1).
       set (x' := gforce Rops F g3). set (y' := gforce Rops G g3). destruct os; vd; vu; unfold Rdiv; ring.
-    - set (c1 := dih_cross1 Rops mass pos g1 g2 g3). set (c4 := dih_cross4 Rops mass pos g2 g3 g4).
-      set (f1 := dih_fact1 Rops mass pos g1 g2 g3). set (f4 := dih_fact4 Rops mass pos g2 g3 g4).
+    - set (c1 := dih_cross1 Rops cell mass pos g1 g2 g3). set (c4 := dih_cross4 Rops cell mass pos g2 g3 g4).
+      set (f1 := dih_fact1 Rops cell mass pos g1 g2 g3). set (f4 := dih_fact4 Rops cell mass pos g2 g3 g4).
       set (x := gforce Rops F g1). set (y := gforce Rops G g1).
       set (x' := gforce Rops F g4). set (y' := gforce Rops G g4). destruct os; vd; vu; unfold Rdiv; ring.
     - ring.
     - rs. ring.
     - ring.
+    - rewrite (adot_ext _ _ (frot Rops (rotf pos) (fadd Rops (fscale Rops a F) (fscale Rops b G)))
+                 (fadd Rops (fscale Rops a (frot Rops (rotf pos) F)) (fscale Rops b (frot Rops (rotf pos) G))))
+        by (intros x _; unfold frot, fadd, fscale; rewrite mvmul_vadd, !mvmul_vscale; reflexivity).
+      rewrite adot_fadd, !adot_fscale. rs. ring.
+    - rewrite (adot_ext _ _ (frot Rops (rotf pos) (fadd Rops (fscale Rops a F) (fscale Rops b G)))
+                 (fadd Rops (fscale Rops a (frot Rops (rotf pos) F)) (fscale Rops b (frot Rops (rotf pos) G))))
+        by (intros x _; unfold frot, fadd, fscale; rewrite mvmul_vadd, !mvmul_vscale; reflexivity).
+      rewrite adot_fadd, !adot_fscale. ring.
   Qed.
 
   Lemma cvc_ft_local (c : RC) (F G : RF) : (forall a, In a (cvc_atoms c) -> F a = G a) -> ft c F = ft c G.
@@ -624,7 +711,7 @@ Section General.
     intros H.
     assert (E : forall g, (forall a, In a (gids g) -> In a (cvc_atoms c)) -> gforce Rops F g = gforce Rops G g).
     { intros g Hg. apply gforce_ext. intros a Ha. apply H, Hg, Ha. }
-    destruct c as [g1 g2 os|gm gr gr2 axis os|gm gr gr2 axis os|g1 g2 g3 os|g1 g2 g3 g4 os|ids|ids refs c|ids refs evec c];
+    destruct c as [g1 g2 os|gm gr gr2 axis os|gm gr gr2 axis os|g1 g2 g3 os|g1 g2 g3 g4 os|ids|ids refs c|ids refs evec c|ids refs rotf jdf|ids refs evec rotf jdf];
       cbn [cvc_ft cvc_atoms] in *.
     - rewrite (E g1), (E g2) by (intros a Ha; rewrite ?in_app_iff; tauto). reflexivity.
     - rewrite (E gm), (E gr) by (intros a Ha; rewrite ?in_app_iff; tauto). reflexivity.
@@ -634,6 +721,8 @@ Section General.
     - apply adot_ext. exact H.
     - f_equal. apply adot_ext. exact H.
     - apply adot_ext. exact H.
+    - f_equal. apply adot_ext. intros x Hx. unfold frot. rewrite (H x Hx). reflexivity.
+    - apply adot_ext. intros x Hx. unfold frot. rewrite (H x Hx). reflexivity.
   Qed.
 
   (* sharper: only the atoms whose forces are read matter (oneSiteTotalForce: the first group only) *)
@@ -642,7 +731,7 @@ Section General.
     intros H.
     assert (E : forall g, (forall a, In a (gids g) -> In a (cvc_measured c)) -> gforce Rops F g = gforce Rops G g).
     { intros g Hg. apply gforce_ext. intros a Ha. apply H, Hg, Ha. }
-    destruct c as [g1 g2 os|gm gr gr2 axis os|gm gr gr2 axis os|g1 g2 g3 os|g1 g2 g3 g4 os|ids|ids refs c|ids refs evec c];
+    destruct c as [g1 g2 os|gm gr gr2 axis os|gm gr gr2 axis os|g1 g2 g3 os|g1 g2 g3 g4 os|ids|ids refs c|ids refs evec c|ids refs rotf jdf|ids refs evec rotf jdf];
       cbn [cvc_ft cvc_measured] in *.
     - destruct os; [rewrite (E g1) by (intros a Ha; exact Ha); reflexivity|].
       rewrite (E g1), (E g2) by (intros a Ha; rewrite ?in_app_iff; tauto). reflexivity.
@@ -659,6 +748,8 @@ Section General.
     - apply adot_ext. exact H.
     - f_equal. apply adot_ext. exact H.
     - apply adot_ext. exact H.
+    - f_equal. apply adot_ext. intros x Hx. unfold frot. rewrite (H x Hx). reflexivity.
+    - apply adot_ext. intros x Hx. unfold frot. rewrite (H x Hx). reflexivity.
   Qed.
 
   Lemma cvc_apply_support (c : RC) fc a : ~ In a (cvc_atoms c) -> app c fc a = v0.
@@ -666,7 +757,7 @@ Section General.
     intros H.
     assert (E : forall g v, (forall b, In b (gids g) -> In b (cvc_atoms c)) -> gapply Rops mass g v fc a = v0).
     { intros g v Hg. apply gapply_support. intros Ha. apply H, Hg, Ha. }
-    destruct c as [g1 g2 os|gm gr gr2 axis os|gm gr gr2 axis os|g1 g2 g3 os|g1 g2 g3 g4 os|ids|ids refs c|ids refs evec c];
+    destruct c as [g1 g2 os|gm gr gr2 axis os|gm gr gr2 axis os|g1 g2 g3 os|g1 g2 g3 g4 os|ids|ids refs c|ids refs evec c|ids refs rotf jdf|ids refs evec rotf jdf];
       cbn [cvc_apply cvc_atoms] in *.
     - unfold fadd. rewrite !E by (intros b Hb; rewrite ?in_app_iff; tauto). apply vadd_0_l.
     - destruct gr2 as [g2|]; unfold fadd; rewrite !E by (intros b Hb; rewrite ?in_app_iff; tauto); rewrite ?vadd_0_l; reflexivity.
@@ -677,6 +768,8 @@ Section General.
     - apply aapply_support. exact H.
     - unfold fadd. rewrite !aapply_support by exact H. apply vadd_0_l.
     - unfold fadd. rewrite !aapply_support by exact H. apply vadd_0_l.
+    - apply aapply_support. exact H.
+    - apply aapply_support. exact H.
   Qed.
 
   Lemma cvc_ft_ext (c : RC) (F G : RF) : (forall a, F a = G a) -> ft c F = ft c G.
@@ -699,7 +792,7 @@ Section General.
   (* ------------------------------------------------------------------ the variable *)
   Definition proj_list (l : list (RC * R)) (s : R) (F : RF) : R :=
     tsum Rops (map (fun p => ft (fst p) F * snd p / s) l).
-  Lemma cv_proj_eq cv F : cv_proj Rops PI mass pos cv F = proj_list (cv_comps cv) (cv_sqnorm Rops cv) F.
+  Lemma cv_proj_eq cv F : cv_proj Rops PI cell mass pos cv F = proj_list (cv_comps cv) (cv_sqnorm Rops cv) F.
   Proof. reflexivity. Qed.
 
   Lemma proj_list_linear l s (F G : RF) a b :
@@ -767,7 +860,7 @@ Section General.
     Forall (fun p => inv_ok (fst p)) (cv_comps cv) ->
     ForallOrdPairs (fun p q => atoms_disj (fst p) (fst q)) (cv_comps cv) ->
     cv_sqnorm Rops cv <> 0 ->
-    cv_proj Rops PI mass pos cv (cv_apply Rops PI mass pos cv f) = f.
+    cv_proj Rops PI cell mass pos cv (cv_apply Rops PI cell mass pos cv f) = f.
   Proof.
     intros Hinv Hd Hs. rewrite cv_proj_eq. unfold cv_apply.
     rewrite (proj_list_local _ _ _ (fadd Rops (fzero Rops) (fsum Rops (map (appf f) (cv_comps cv))))).
@@ -777,14 +870,14 @@ Section General.
   Qed.
 
   Lemma cv_proj_linear cv (F G : RF) a b :
-    cv_proj Rops PI mass pos cv (fadd Rops (fscale Rops a F) (fscale Rops b G))
-    = a * cv_proj Rops PI mass pos cv F + b * cv_proj Rops PI mass pos cv G.
+    cv_proj Rops PI cell mass pos cv (fadd Rops (fscale Rops a F) (fscale Rops b G))
+    = a * cv_proj Rops PI cell mass pos cv F + b * cv_proj Rops PI cell mass pos cv G.
   Proof. rewrite !cv_proj_eq. apply proj_list_linear. Qed.
   Lemma cv_proj_local cv (F G : RF) : (forall a, In a (cv_atoms cv) -> F a = G a) ->
-    cv_proj Rops PI mass pos cv F = cv_proj Rops PI mass pos cv G.
+    cv_proj Rops PI cell mass pos cv F = cv_proj Rops PI cell mass pos cv G.
   Proof. rewrite !cv_proj_eq. apply proj_list_local. Qed.
   Lemma cv_proj_fadd cv (F G : RF) :
-    cv_proj Rops PI mass pos cv (fadd Rops F G) = cv_proj Rops PI mass pos cv F + cv_proj Rops PI mass pos cv G.
+    cv_proj Rops PI cell mass pos cv (fadd Rops F G) = cv_proj Rops PI cell mass pos cv F + cv_proj Rops PI cell mass pos cv G.
   Proof.
     rewrite (cv_proj_local cv (fadd Rops F G) (fadd Rops (fscale Rops 1 F) (fscale Rops 1 G))).
     - rewrite cv_proj_linear. ring.
@@ -794,13 +887,14 @@ End General.
 
 (* ================================================================== one step, the engine, histories *)
 Section Steps.
+  Variable cell : option RV.
   Variable mass : nat -> R.
-  Local Notation proj := (cv_proj Rops PI mass).
-  Local Notation fjf := (cv_fj Rops PI mass).
-  Local Notation capply := (cv_apply Rops PI mass).
-  Local Notation step := (cv_step Rops PI mass).
-  Local Notation estep := (eng_step Rops PI mass).
-  Local Notation erun := (eng_run Rops PI mass).
+  Local Notation proj := (cv_proj Rops PI cell mass).
+  Local Notation fjf := (cv_fj Rops PI cell mass).
+  Local Notation capply := (cv_apply Rops PI cell mass).
+  Local Notation step := (cv_step Rops PI cell mass).
+  Local Notation estep := (eng_step Rops PI cell mass).
+  Local Notation erun := (eng_run Rops PI cell mass).
 
   Lemma step_same cv s pos F fb : cv_samestep cv = true ->
     o_ft (snd (step cv s pos F fb)) = proj pos cv F + (if cv_hide cv then 0 else fjf pos cv).
@@ -907,7 +1001,7 @@ Section Steps.
 
   (* ---- consequences for an inverse-correct variable ---- *)
   Definition cv_inv_ok (pos : RF) (cv : colvar) : Prop :=
-    Forall (fun p => inv_ok mass pos (fst p)) (cv_comps cv) /\
+    Forall (fun p => inv_ok cell mass pos (fst p)) (cv_comps cv) /\
     ForallOrdPairs (fun p q => atoms_disj (fst p) (fst q)) (cv_comps cv) /\
     cv_sqnorm Rops cv <> 0.
 
@@ -918,7 +1012,7 @@ Section Steps.
   Qed.
   Lemma proj_vanish cv pos (F : RF) : (forall a, In a (cv_atoms cv) -> F a = v0) -> proj pos cv F = 0.
   Proof.
-    intros H. rewrite (cv_proj_local mass pos cv F (fzero Rops)) by (intros a Ha; rewrite H by exact Ha; reflexivity).
+    intros H. rewrite (cv_proj_local cell mass pos cv F (fzero Rops)) by (intros a Ha; rewrite H by exact Ha; reflexivity).
     rewrite cv_proj_eq. unfold proj_list. induction (cv_comps cv) as [|p l IH]; cbn [map]; [reflexivity|].
     rewrite tsum_cons, IH, cvc_ft_fzero. rs. unfold Rdiv. ring.
   Qed.
@@ -943,25 +1037,26 @@ End Steps.
 
 (* ================================================================== statements used by Properties_C07.v *)
 Section Final.
+  Variable cell : option RV.
   Variable mass : nat -> R.
-  Local Notation proj := (cv_proj Rops PI mass).
-  Local Notation fjf := (cv_fj Rops PI mass).
-  Local Notation capply := (cv_apply Rops PI mass).
-  Local Notation erun := (eng_run Rops PI mass).
+  Local Notation proj := (cv_proj Rops PI cell mass).
+  Local Notation fjf := (cv_fj Rops PI cell mass).
+  Local Notation capply := (cv_apply Rops PI cell mass).
+  Local Notation erun := (eng_run Rops PI cell mass).
 
   (* lagged convention, the engine hands back exactly what Colvars applied (its own force is zero on the
      variable's atoms): the report of the next step *)
   Lemma inverse_lagged cv pre s i1 i2 :
-    cv_samestep cv = false -> cv_inv_ok mass (e_pos i1) cv -> (forall a, In a (cv_atoms cv) -> e_force i1 a = v0) ->
+    cv_samestep cv = false -> cv_inv_ok cell mass (e_pos i1) cv -> (forall a, In a (cv_atoms cv) -> e_force i1 a = v0) ->
     last_ft (snd (erun cv true s (pre ++ [i1; i2]))) =
-      own_force mass cv i1 + (if adds_fj cv then fjf (e_pos i1) cv else 0) - (if cv_subtract cv then own_force mass cv i1 else 0).
+      own_force cell mass cv i1 + (if adds_fj cv then fjf (e_pos i1) cv else 0) - (if cv_subtract cv then own_force cell mass cv i1 else 0).
   Proof.
     intros H Hok Hz. rewrite history_lag by exact H. unfold lag_report.
-    rewrite proj_exerted by exact Hok. rewrite (proj_vanish mass cv (e_pos i1) (e_force i1) Hz). ring.
+    rewrite proj_exerted by exact Hok. rewrite (proj_vanish cell mass cv (e_pos i1) (e_force i1) Hz). ring.
   Qed.
   Lemma inverse_lagged_jacobian cv pre s i1 i2 :
     cv_samestep cv = false -> cv_hide cv = false -> cv_subtract cv = false ->
-    cv_inv_ok mass (e_pos i1) cv -> (forall a, In a (cv_atoms cv) -> e_force i1 a = v0) ->
+    cv_inv_ok cell mass (e_pos i1) cv -> (forall a, In a (cv_atoms cv) -> e_force i1 a = v0) ->
     last_ft (snd (erun cv true s (pre ++ [i1; i2]))) = e_fb i1 + fjf (e_pos i1) cv.
   Proof.
     intros H Hh Hs Hok Hz. rewrite inverse_lagged by assumption.
@@ -969,7 +1064,7 @@ Section Final.
   Qed.
   Lemma inverse_lagged_hidden cv pre s i1 i2 :
     cv_samestep cv = false -> cv_hide cv = true -> cv_subtract cv = false ->
-    cv_inv_ok mass (e_pos i1) cv -> (forall a, In a (cv_atoms cv) -> e_force i1 a = v0) ->
+    cv_inv_ok cell mass (e_pos i1) cv -> (forall a, In a (cv_atoms cv) -> e_force i1 a = v0) ->
     last_ft (snd (erun cv true s (pre ++ [i1; i2]))) = e_fb i1.
   Proof.
     intros H Hh Hs Hok Hz. rewrite inverse_lagged by assumption.
@@ -977,27 +1072,27 @@ Section Final.
   Qed.
   Lemma inverse_lagged_T0 cv pre s i1 i2 :
     cv_samestep cv = false -> cv_kT cv = 0 -> cv_subtract cv = false ->
-    cv_inv_ok mass (e_pos i1) cv -> (forall a, In a (cv_atoms cv) -> e_force i1 a = v0) ->
+    cv_inv_ok cell mass (e_pos i1) cv -> (forall a, In a (cv_atoms cv) -> e_force i1 a = v0) ->
     last_ft (snd (erun cv true s (pre ++ [i1; i2]))) = e_fb i1.
   Proof.
     intros H HT Hs Hok Hz. rewrite inverse_lagged by assumption.
-    unfold own_force, applied_force. rewrite Hs, (cv_fj_T0 mass cv (e_pos i1) HT). rs.
+    unfold own_force, applied_force. rewrite Hs, (cv_fj_T0 cell mass cv (e_pos i1) HT). rs.
     destruct (cv_hide cv), (adds_fj cv); ring.
   Qed.
   (* same-step convention: the engine's force field is exactly the distribution of a variable force f *)
   Lemma inverse_same cv inc pre s i f :
-    cv_samestep cv = true -> cv_inv_ok mass (e_pos i) cv ->
+    cv_samestep cv = true -> cv_inv_ok cell mass (e_pos i) cv ->
     (forall a, In a (cv_atoms cv) -> e_force i a = capply (e_pos i) cv f a) ->
     last_ft (snd (erun cv inc s (pre ++ [i]))) = f + (if cv_hide cv then 0 else fjf (e_pos i) cv).
   Proof.
     intros H (Hi & Hd & Hs) HF. rewrite history_same by exact H. unfold same_report.
-    rewrite (cv_proj_local mass (e_pos i) cv (e_force i) (capply (e_pos i) cv f) HF).
+    rewrite (cv_proj_local cell mass (e_pos i) cv (e_force i) (capply (e_pos i) cv f) HF).
     rewrite cv_inverse by assumption. reflexivity.
   Qed.
 
   (* subtractAppliedForce: what is reported is the projection of the engine's own forces *)
   Lemma subtract_applied cv pre s i1 i2 :
-    cv_samestep cv = false -> cv_subtract cv = true -> cv_inv_ok mass (e_pos i1) cv ->
+    cv_samestep cv = false -> cv_subtract cv = true -> cv_inv_ok cell mass (e_pos i1) cv ->
     last_ft (snd (erun cv true s (pre ++ [i1; i2]))) =
       proj (e_pos i1) cv (e_force i1) + (if cv_hide cv then 0 else fjf (e_pos i1) cv).
   Proof.
@@ -1005,9 +1100,9 @@ Section Final.
     rewrite proj_exerted by exact Hok. unfold adds_fj. rewrite Hs. destruct (cv_hide cv); cbn [andb orb negb]; ring.
   Qed.
   Lemma without_subtract cv pre s i1 i2 :
-    cv_samestep cv = false -> cv_subtract cv = false -> cv_inv_ok mass (e_pos i1) cv ->
+    cv_samestep cv = false -> cv_subtract cv = false -> cv_inv_ok cell mass (e_pos i1) cv ->
     last_ft (snd (erun cv true s (pre ++ [i1; i2]))) =
-      proj (e_pos i1) cv (e_force i1) + own_force mass cv i1 + (if adds_fj cv then fjf (e_pos i1) cv else 0).
+      proj (e_pos i1) cv (e_force i1) + own_force cell mass cv i1 + (if adds_fj cv then fjf (e_pos i1) cv else 0).
   Proof.
     intros H Hs Hok. rewrite history_lag by exact H. unfold lag_report.
     rewrite proj_exerted by exact Hok. rewrite Hs. ring.
@@ -1035,10 +1130,10 @@ Section Final.
   (* +-1 combinations *)
   Lemma pm1_combination cv pos f :
     cv_comps cv <> [] -> Forall (fun p => snd p = 1 \/ snd p = -1) (cv_comps cv) ->
-    Forall (fun p => inv_ok mass pos (fst p)) (cv_comps cv) ->
+    Forall (fun p => inv_ok cell mass pos (fst p)) (cv_comps cv) ->
     ForallOrdPairs (fun p q => atoms_disj (fst p) (fst q)) (cv_comps cv) ->
     proj pos cv (capply pos cv f) = f /\
-    fjf pos cv = tsum Rops (map (fun p => cvc_jd Rops PI mass pos (fst p) * snd p / ofnat Rops (length (cv_comps cv))) (cv_comps cv)) * cv_kT cv.
+    fjf pos cv = tsum Rops (map (fun p => cvc_jd Rops PI cell mass pos (fst p) * snd p / ofnat Rops (length (cv_comps cv))) (cv_comps cv)) * cv_kT cv.
   Proof.
     intros Hne Hpm Hi Hd. destruct (sqnorm_pm1 cv Hne Hpm) as [E Hs]. split.
     - apply cv_inverse; assumption.
@@ -1048,18 +1143,19 @@ End Final.
 
 (* ================================================================== the angle guard from the documented singularities *)
 Section AngleGuard.
+  Variable cell : option RV.
   Variable mass : nat -> R.
   Variable pos : RF.
   Lemma ang_guard g1 g2 g3 :
-    0 < vnorm2 Rops (ang_r21 Rops mass pos g1 g2) -> 0 < vnorm2 Rops (ang_r23 Rops mass pos g2 g3) ->
-    ang_cos Rops mass pos g1 g2 g3 * ang_cos Rops mass pos g1 g2 g3 < 1 ->
-    0 < vnorm2 Rops (ang_dxdr1 Rops PI mass pos g1 g2 g3) /\ 0 < vnorm2 Rops (ang_dxdr3 Rops PI mass pos g1 g2 g3).
+    0 < vnorm2 Rops (ang_r21 Rops cell mass pos g1 g2) -> 0 < vnorm2 Rops (ang_r23 Rops cell mass pos g2 g3) ->
+    ang_cos Rops cell mass pos g1 g2 g3 * ang_cos Rops cell mass pos g1 g2 g3 < 1 ->
+    0 < vnorm2 Rops (ang_dxdr1 Rops PI cell mass pos g1 g2 g3) /\ 0 < vnorm2 Rops (ang_dxdr3 Rops PI cell mass pos g1 g2 g3).
   Proof.
     intros H1 H3 Hc. unfold ang_dxdr1, ang_dxdr3. cbv zeta.
-    set (c := ang_cos Rops mass pos g1 g2 g3) in *.
-    assert (Ec : c = vdot Rops (ang_r21 Rops mass pos g1 g2) (ang_r23 Rops mass pos g2 g3)
-                     / (vnorm Rops (ang_r21 Rops mass pos g1 g2) * vnorm Rops (ang_r23 Rops mass pos g2 g3))) by reflexivity.
-    set (r21 := ang_r21 Rops mass pos g1 g2) in *. set (r23 := ang_r23 Rops mass pos g2 g3) in *.
+    set (c := ang_cos Rops cell mass pos g1 g2 g3) in *.
+    assert (Ec : c = vdot Rops (ang_r21 Rops cell mass pos g1 g2) (ang_r23 Rops cell mass pos g2 g3)
+                     / (vnorm Rops (ang_r21 Rops cell mass pos g1 g2) * vnorm Rops (ang_r23 Rops cell mass pos g2 g3))) by reflexivity.
+    set (r21 := ang_r21 Rops cell mass pos g1 g2) in *. set (r23 := ang_r23 Rops cell mass pos g2 g3) in *.
     pose proof (vnorm_pos r21 H1) as L1. pose proof (vnorm_pos r23 H3) as L3.
     pose proof (vnorm_sq r21) as S1. pose proof (vnorm_sq r23) as S3.
     set (l1 := vnorm Rops r21) in *. set (l3 := vnorm Rops r23) in *.
@@ -1094,6 +1190,29 @@ Section AngleGuard.
   Qed.
 End AngleGuard.
 
+(* ================================================================== closed form of the angle's Jacobian derivative *)
+Section AngleJacobian.
+  Variable cell : option RV.
+  Variable mass : nat -> R.
+  Variable pos : RF.
+  (* jd = (pi/180) cot(theta) = (pi/180) cos(theta) / sqrt(1 - cos^2(theta)), theta the angle in radians *)
+  Lemma angle_jd_closed g1 g2 g3 os :
+    ang_cos Rops cell mass pos g1 g2 g3 * ang_cos Rops cell mass pos g1 g2 g3 < 1 ->
+    cvc_jd Rops PI cell mass pos (CAngle g1 g2 g3 os) =
+      PI / 180 * (ang_cos Rops cell mass pos g1 g2 g3 / sqrt (1 - ang_cos Rops cell mass pos g1 g2 g3 * ang_cos Rops cell mass pos g1 g2 g3)).
+  Proof.
+    intros Hc. cbn [cvc_jd cvc_value]. set (c := ang_cos Rops cell mass pos g1 g2 g3) in *.
+    assert (Hb : -1 <= c <= 1) by (split; nra).
+    pose proof PI_RGT_0 as Hpi.
+    unfold deg. rs. cbn [nacos ncos nsin Rops].
+    replace (180 / PI * acos c * PI / 180) with (acos c) by (field; lra).
+    assert (Hne : acos c <> 0).
+    { intros E. pose proof (cos_acos c Hb) as C. rewrite E, cos_0 in C. clearbody c. subst c. lra. }
+    destruct (Reqb' (acos c) 0) eqn:E0; [apply Reqb_true in E0; contradiction|].
+    rewrite cos_acos, sin_acos by exact Hb. unfold Rsqr. reflexivity.
+  Qed.
+End AngleJacobian.
+
 (* ================================================================== a concrete system: the premises are satisfiable *)
 Definition ex_mass : nat -> R := fun _ => 1.
 Definition ex_pos : RF := fun a =>
@@ -1112,25 +1231,25 @@ Proof. intros H c [Hc|[]] [Hd|[]]. congruence. Qed.
 
 Lemma ex_axis : vdot Rops ((0, 0, 1) : RV) (0, 0, 1) = 1.
 Proof. unfold vdot. rs. ring. Qed.
-Lemma ex_dxy : dxy_value Rops ex_mass ex_pos (G 0) (G 1) None (0, 0, 1) <> 0.
+Lemma ex_dxy : dxy_value Rops None ex_mass ex_pos (G 0) (G 1) None (0, 0, 1) <> 0.
 Proof.
-  unfold dxy_value, dxy_ortho, dxy_dist_v, dz_axis. rewrite !gcom_single. cbn [ex_pos].
+  unfold dxy_value, dxy_ortho, dxy_dist_v, dz_axis, pdist. rewrite !gcom_single. cbn [ex_pos].
   unfold vnorm, vnorm2, vdot, vsub, vscale. rs.
   apply Rgt_not_eq, Rlt_gt, sqrt_lt_R0. lra.
 Qed.
 
 Lemma ex_angle :
-  0 < vnorm2 Rops (ang_r21 Rops ex_mass ex_pos (G 0) (G 1)) /\ 0 < vnorm2 Rops (ang_r23 Rops ex_mass ex_pos (G 1) (G 2)) /\
-  ang_cos Rops ex_mass ex_pos (G 0) (G 1) (G 2) * ang_cos Rops ex_mass ex_pos (G 0) (G 1) (G 2) < 1.
+  0 < vnorm2 Rops (ang_r21 Rops None ex_mass ex_pos (G 0) (G 1)) /\ 0 < vnorm2 Rops (ang_r23 Rops None ex_mass ex_pos (G 1) (G 2)) /\
+  ang_cos Rops None ex_mass ex_pos (G 0) (G 1) (G 2) * ang_cos Rops None ex_mass ex_pos (G 0) (G 1) (G 2) < 1.
 Proof.
-  unfold ang_cos, ang_r21, ang_r23. rewrite !gcom_single. cbn [ex_pos].
+  unfold ang_cos, ang_r21, ang_r23, pdist. rewrite !gcom_single. cbn [ex_pos].
   unfold vnorm, vnorm2, vdot, vsub. rs. repeat split; try lra.
 Qed.
 Lemma ex_dihedral :
-  0 < vnorm2 Rops (vcross Rops (dih_r12 Rops ex_mass ex_pos (G 0) (G 1)) (dih_r12 Rops ex_mass ex_pos (G 1) (G 2))) /\
-  0 < vnorm2 Rops (vcross Rops (dih_r12 Rops ex_mass ex_pos (G 1) (G 2)) (dih_r12 Rops ex_mass ex_pos (G 2) (G 3))).
+  0 < vnorm2 Rops (vcross Rops (dih_r12 Rops None ex_mass ex_pos (G 0) (G 1)) (dih_r12 Rops None ex_mass ex_pos (G 1) (G 2))) /\
+  0 < vnorm2 Rops (vcross Rops (dih_r12 Rops None ex_mass ex_pos (G 1) (G 2)) (dih_r12 Rops None ex_mass ex_pos (G 2) (G 3))).
 Proof.
-  unfold dih_r12. rewrite !gcom_single. cbn [ex_pos]. unfold vnorm2, vdot, vcross, vsub. rs. split; lra.
+  unfold dih_r12, pdist. rewrite !gcom_single. cbn [ex_pos]. unfold vnorm2, vdot, vcross, vsub. rs. split; lra.
 Qed.
 Lemma ex_cog2 : cog Rops ex_pos [0%nat; 1%nat] = (1 / 2, 0, 0).
 Proof. unfold cog, vsum, ofnat. cbn [map fold_right length ex_pos]. unfold vscale, vadd, vzero. rs. change (IZR (Z.of_nat 2)) with 2. f_equal; [f_equal|]; field. Qed.
@@ -1155,6 +1274,18 @@ Proof.
   - intros rc E. destruct Hc as [-> | ->]; [discriminate|]. inversion E; subst.
     unfold ex_refs, vsum, ofnat. cbn [fold_right length]. unfold vadd, vscale, vzero. rs. f_equal; [f_equal|]; ring.
 Qed.
+Definition ex_id : RM := ((1, 0, 0), (0, 1, 0), (0, 0, 1)).
+Lemma ex_rotated :
+  (forall v : RV, mvmul Rops ex_id (mtvmul Rops ex_id v) = v) /\
+  rmsdrot_value Rops ex_pos [0%nat; 1%nat] ex_refs ex_id <> 0.
+Proof.
+  split.
+  - intros [[x y] z]. unfold ex_id, mvmul, mtvmul, vadd, vscale, vdot. rs. f_equal; [f_equal|]; ring.
+  - unfold rmsdrot_value, rmsdrot_diff, rot_frame. rewrite ex_cog2.
+    unfold vmean, norm2_sum, tsum, ofnat, ex_refs, ex_id, vsum. cbn [map fold_right length ex_pos vsub_list].
+    unfold mvmul, vnorm2, vdot, vsub, vadd, vscale, vzero. rs. change (IZR (Z.of_nat 2)) with 2.
+    apply Rgt_not_eq, Rlt_gt, sqrt_lt_R0. lra.
+Qed.
 Definition ex_evec : list RV := [(1, 0, 0); (-1, 0, 0)].
 Lemma ex_eigenvector : NoDup [0%nat; 1%nat] /\ length ex_evec = length [0%nat; 1%nat] /\ norm2_sum Rops (eig_vec Rops ex_evec) <> 0.
 Proof.
@@ -1165,7 +1296,7 @@ Qed.
 
 Definition ex_cv (h sb sm : bool) (kT : R) : @colvar R :=
   mkColvar [(CDistance (G 0) (G 1) false, 1); (CDistance (G 2) (G 3) false, -1)] h sb sm kT.
-Lemma ex_cv_ok pos h sb sm kT : cv_inv_ok ex_mass pos (ex_cv h sb sm kT).
+Lemma ex_cv_ok pos h sb sm kT : cv_inv_ok None ex_mass pos (ex_cv h sb sm kT).
 Proof.
   unfold cv_inv_ok, ex_cv. cbn [cv_comps]. repeat split.
   - repeat constructor; cbn [fst]; intros fc; apply inv_distance; auto using ex_gok, ex_disj.
@@ -1176,245 +1307,262 @@ Lemma ex_cv_pm1 h sb sm kT : cv_comps (ex_cv h sb sm kT) <> [] /\ Forall (fun p 
 Proof. split; [discriminate|]. unfold ex_cv; cbn [cv_comps]. constructor; [left; reflexivity|]. constructor; [right; reflexivity|]. constructor. Qed.
 
 (* ================================================================== statements of Properties_C07.v, verbatim *)
-Lemma thm_inverse_distance : forall (mass : nat -> R) (pos : RF) (g1 g2 : RG) (fc : R),
+Lemma thm_inverse_distance : forall (cell : option RV) (mass : nat -> R) (pos : RF) (g1 g2 : RG) (fc : R),
   gok mass g1 -> gok mass g2 -> disj g1 g2 ->
-  cvc_ft Rops PI mass pos (CDistance g1 g2 false) (cvc_apply Rops PI mass pos (CDistance g1 g2 false) fc) = fc.
+  cvc_ft Rops PI cell mass pos (CDistance g1 g2 false) (cvc_apply Rops PI cell mass pos (CDistance g1 g2 false) fc) = fc.
 Proof. exact inv_distance. Qed.
-Lemma thm_inverse_distance_onesite : forall (mass : nat -> R) (pos : RF) (g1 g2 : RG) (fc : R),
+Lemma thm_inverse_distance_onesite : forall (cell : option RV) (mass : nat -> R) (pos : RF) (g1 g2 : RG) (fc : R),
   gok mass g1 -> disj g1 g2 ->
-  cvc_ft Rops PI mass pos (CDistance g1 g2 true) (cvc_apply Rops PI mass pos (CDistance g1 g2 true) fc) = fc.
+  cvc_ft Rops PI cell mass pos (CDistance g1 g2 true) (cvc_apply Rops PI cell mass pos (CDistance g1 g2 true) fc) = fc.
 Proof. exact inv_distance_onesite. Qed.
-Lemma thm_inverse_distanceZ : forall (mass : nat -> R) (pos : RF) (gm gr : RG) (axis : RV) (fc : R),
+Lemma thm_inverse_distanceZ : forall (cell : option RV) (mass : nat -> R) (pos : RF) (gm gr : RG) (axis : RV) (fc : R),
   gok mass gm -> gok mass gr -> disj gm gr -> vdot Rops axis axis = 1 ->
-  cvc_ft Rops PI mass pos (CDistanceZ gm gr None axis false) (cvc_apply Rops PI mass pos (CDistanceZ gm gr None axis false) fc) = fc.
+  cvc_ft Rops PI cell mass pos (CDistanceZ gm gr None axis false) (cvc_apply Rops PI cell mass pos (CDistanceZ gm gr None axis false) fc) = fc.
 Proof. exact inv_distanceZ. Qed.
-Lemma thm_inverse_distanceZ_onesite : forall (mass : nat -> R) (pos : RF) (gm gr : RG) (axis : RV) (fc : R),
+Lemma thm_inverse_distanceZ_onesite : forall (cell : option RV) (mass : nat -> R) (pos : RF) (gm gr : RG) (axis : RV) (fc : R),
   gok mass gm -> disj gm gr -> vdot Rops axis axis = 1 ->
-  cvc_ft Rops PI mass pos (CDistanceZ gm gr None axis true) (cvc_apply Rops PI mass pos (CDistanceZ gm gr None axis true) fc) = fc.
+  cvc_ft Rops PI cell mass pos (CDistanceZ gm gr None axis true) (cvc_apply Rops PI cell mass pos (CDistanceZ gm gr None axis true) fc) = fc.
 Proof. exact inv_distanceZ_onesite. Qed.
-Lemma thm_inverse_distanceZ_ref2 : forall (mass : nat -> R) (pos : RF) (gm gr g2 : RG) (axis : RV) (os : bool) (fc : R),
+Lemma thm_inverse_distanceZ_ref2 : forall (cell : option RV) (mass : nat -> R) (pos : RF) (gm gr g2 : RG) (axis : RV) (os : bool) (fc : R),
   gok mass gm -> disj gm gr -> disj gm g2 ->
-  cvc_ft Rops PI mass pos (CDistanceZ gm gr (Some g2) axis os) (cvc_apply Rops PI mass pos (CDistanceZ gm gr (Some g2) axis os) fc) = fc.
+  cvc_ft Rops PI cell mass pos (CDistanceZ gm gr (Some g2) axis os) (cvc_apply Rops PI cell mass pos (CDistanceZ gm gr (Some g2) axis os) fc) = fc.
 Proof. exact inv_distanceZ_ref2. Qed.
-Lemma thm_inverse_distanceXY : forall (mass : nat -> R) (pos : RF) (gm gr : RG) (gr2 : option RG) (axis : RV) (os : bool) (fc : R),
+Lemma thm_inverse_distanceXY : forall (cell : option RV) (mass : nat -> R) (pos : RF) (gm gr : RG) (gr2 : option RG) (axis : RV) (os : bool) (fc : R),
   gok mass gm -> (gr2 = None -> os = false -> gok mass gr) -> disj gm gr ->
   (forall g2, gr2 = Some g2 -> disj gm g2) ->
-  dxy_value Rops mass pos gm gr gr2 axis <> 0 ->
-  cvc_ft Rops PI mass pos (CDistanceXY gm gr gr2 axis os) (cvc_apply Rops PI mass pos (CDistanceXY gm gr gr2 axis os) fc) = fc.
+  dxy_value Rops cell mass pos gm gr gr2 axis <> 0 ->
+  cvc_ft Rops PI cell mass pos (CDistanceXY gm gr gr2 axis os) (cvc_apply Rops PI cell mass pos (CDistanceXY gm gr gr2 axis os) fc) = fc.
 Proof. exact inv_distanceXY_gen. Qed.
-Lemma thm_inverse_angle : forall (mass : nat -> R) (pos : RF) (g1 g2 g3 : RG) (fc : R),
+Lemma thm_inverse_angle : forall (cell : option RV) (mass : nat -> R) (pos : RF) (g1 g2 g3 : RG) (fc : R),
   gok mass g1 -> gok mass g3 -> disj g1 g2 -> disj g1 g3 -> disj g3 g2 ->
-  0 < vnorm2 Rops (ang_r21 Rops mass pos g1 g2) -> 0 < vnorm2 Rops (ang_r23 Rops mass pos g2 g3) ->
-  ang_cos Rops mass pos g1 g2 g3 * ang_cos Rops mass pos g1 g2 g3 < 1 ->
-  cvc_ft Rops PI mass pos (CAngle g1 g2 g3 false) (cvc_apply Rops PI mass pos (CAngle g1 g2 g3 false) fc) = fc.
-Proof. intros mass pos g1 g2 g3 fc H1 H3 D12 D13 D32 L1 L3 Hc.
-  destruct (ang_guard mass pos g1 g2 g3 L1 L3 Hc) as [A B]. apply inv_angle; try assumption. lra. Qed.
-Lemma thm_inverse_angle_onesite : forall (mass : nat -> R) (pos : RF) (g1 g2 g3 : RG) (fc : R),
+  0 < vnorm2 Rops (ang_r21 Rops cell mass pos g1 g2) -> 0 < vnorm2 Rops (ang_r23 Rops cell mass pos g2 g3) ->
+  ang_cos Rops cell mass pos g1 g2 g3 * ang_cos Rops cell mass pos g1 g2 g3 < 1 ->
+  cvc_ft Rops PI cell mass pos (CAngle g1 g2 g3 false) (cvc_apply Rops PI cell mass pos (CAngle g1 g2 g3 false) fc) = fc.
+Proof. intros cell mass pos g1 g2 g3 fc H1 H3 D12 D13 D32 L1 L3 Hc.
+  destruct (ang_guard cell mass pos g1 g2 g3 L1 L3 Hc) as [A B]. apply inv_angle; try assumption. lra. Qed.
+Lemma thm_inverse_angle_onesite : forall (cell : option RV) (mass : nat -> R) (pos : RF) (g1 g2 g3 : RG) (fc : R),
   gok mass g1 -> disj g1 g2 -> disj g1 g3 ->
-  0 < vnorm2 Rops (ang_r21 Rops mass pos g1 g2) -> 0 < vnorm2 Rops (ang_r23 Rops mass pos g2 g3) ->
-  ang_cos Rops mass pos g1 g2 g3 * ang_cos Rops mass pos g1 g2 g3 < 1 ->
-  cvc_ft Rops PI mass pos (CAngle g1 g2 g3 true) (cvc_apply Rops PI mass pos (CAngle g1 g2 g3 true) fc) = fc.
-Proof. intros mass pos g1 g2 g3 fc H1 D12 D13 L1 L3 Hc.
-  destruct (ang_guard mass pos g1 g2 g3 L1 L3 Hc) as [A B]. apply inv_angle_onesite; try assumption. lra. Qed.
-Lemma thm_inverse_dihedral : forall (mass : nat -> R) (pos : RF) (g1 g2 g3 g4 : RG) (fc : R),
+  0 < vnorm2 Rops (ang_r21 Rops cell mass pos g1 g2) -> 0 < vnorm2 Rops (ang_r23 Rops cell mass pos g2 g3) ->
+  ang_cos Rops cell mass pos g1 g2 g3 * ang_cos Rops cell mass pos g1 g2 g3 < 1 ->
+  cvc_ft Rops PI cell mass pos (CAngle g1 g2 g3 true) (cvc_apply Rops PI cell mass pos (CAngle g1 g2 g3 true) fc) = fc.
+Proof. intros cell mass pos g1 g2 g3 fc H1 D12 D13 L1 L3 Hc.
+  destruct (ang_guard cell mass pos g1 g2 g3 L1 L3 Hc) as [A B]. apply inv_angle_onesite; try assumption. lra. Qed.
+Lemma thm_inverse_dihedral : forall (cell : option RV) (mass : nat -> R) (pos : RF) (g1 g2 g3 g4 : RG) (fc : R),
   gok mass g1 -> gok mass g4 -> disj g1 g2 -> disj g1 g3 -> disj g1 g4 -> disj g4 g2 -> disj g4 g3 ->
-  0 < vnorm2 Rops (vcross Rops (dih_r12 Rops mass pos g1 g2) (dih_r12 Rops mass pos g2 g3)) ->
-  0 < vnorm2 Rops (vcross Rops (dih_r12 Rops mass pos g2 g3) (dih_r12 Rops mass pos g3 g4)) ->
-  cvc_ft Rops PI mass pos (CDihedral g1 g2 g3 g4 false) (cvc_apply Rops PI mass pos (CDihedral g1 g2 g3 g4 false) fc) = fc.
+  0 < vnorm2 Rops (vcross Rops (dih_r12 Rops cell mass pos g1 g2) (dih_r12 Rops cell mass pos g2 g3)) ->
+  0 < vnorm2 Rops (vcross Rops (dih_r12 Rops cell mass pos g2 g3) (dih_r12 Rops cell mass pos g3 g4)) ->
+  cvc_ft Rops PI cell mass pos (CDihedral g1 g2 g3 g4 false) (cvc_apply Rops PI cell mass pos (CDihedral g1 g2 g3 g4 false) fc) = fc.
 Proof. exact inv_dihedral. Qed.
-Lemma thm_inverse_dihedral_onesite : forall (mass : nat -> R) (pos : RF) (g1 g2 g3 g4 : RG) (fc : R),
+Lemma thm_inverse_dihedral_onesite : forall (cell : option RV) (mass : nat -> R) (pos : RF) (g1 g2 g3 g4 : RG) (fc : R),
   gok mass g1 -> disj g1 g2 -> disj g1 g3 -> disj g1 g4 ->
-  0 < vnorm2 Rops (vcross Rops (dih_r12 Rops mass pos g1 g2) (dih_r12 Rops mass pos g2 g3)) ->
-  cvc_ft Rops PI mass pos (CDihedral g1 g2 g3 g4 true) (cvc_apply Rops PI mass pos (CDihedral g1 g2 g3 g4 true) fc) = fc.
+  0 < vnorm2 Rops (vcross Rops (dih_r12 Rops cell mass pos g1 g2) (dih_r12 Rops cell mass pos g2 g3)) ->
+  cvc_ft Rops PI cell mass pos (CDihedral g1 g2 g3 g4 true) (cvc_apply Rops PI cell mass pos (CDihedral g1 g2 g3 g4 true) fc) = fc.
 Proof. exact inv_dihedral_onesite. Qed.
-Lemma thm_inverse_gyration : forall (mass : nat -> R) (pos : RF) (ids : list nat) (fc : R),
+Lemma thm_inverse_gyration : forall (cell : option RV) (mass : nat -> R) (pos : RF) (ids : list nat) (fc : R),
   NoDup ids -> gyr_value Rops pos ids <> 0 ->
-  cvc_ft Rops PI mass pos (CGyration ids) (cvc_apply Rops PI mass pos (CGyration ids) fc) = fc.
+  cvc_ft Rops PI cell mass pos (CGyration ids) (cvc_apply Rops PI cell mass pos (CGyration ids) fc) = fc.
 Proof. exact inv_gyration. Qed.
-Lemma thm_inverse_rmsd : forall (mass : nat -> R) (pos : RF) (ids : list nat) (refs : list RV) (center : option RV) (fc : R),
+Lemma thm_inverse_rmsd : forall (cell : option RV) (mass : nat -> R) (pos : RF) (ids : list nat) (refs : list RV) (center : option RV) (fc : R),
   NoDup ids -> length refs = length ids -> rmsd_value Rops pos ids refs center <> 0 ->
   (forall rc, center = Some rc -> vsum Rops refs = vscale Rops (ofnat Rops (length ids)) rc) ->
-  cvc_ft Rops PI mass pos (CRmsd ids refs center) (cvc_apply Rops PI mass pos (CRmsd ids refs center) fc) = fc.
+  cvc_ft Rops PI cell mass pos (CRmsd ids refs center) (cvc_apply Rops PI cell mass pos (CRmsd ids refs center) fc) = fc.
 Proof. exact inv_rmsd. Qed.
-Lemma thm_inverse_eigenvector : forall (mass : nat -> R) (pos : RF) (ids : list nat) (refs evec : list RV) (center : option RV) (fc : R),
+Lemma thm_inverse_eigenvector : forall (cell : option RV) (mass : nat -> R) (pos : RF) (ids : list nat) (refs evec : list RV) (center : option RV) (fc : R),
   NoDup ids -> length evec = length ids -> norm2_sum Rops (eig_vec Rops evec) <> 0 ->
-  cvc_ft Rops PI mass pos (CEigenvector ids refs evec center) (cvc_apply Rops PI mass pos (CEigenvector ids refs evec center) fc) = fc.
+  cvc_ft Rops PI cell mass pos (CEigenvector ids refs evec center) (cvc_apply Rops PI cell mass pos (CEigenvector ids refs evec center) fc) = fc.
 Proof. exact inv_eigenvector. Qed.
-Lemma thm_inverse_variable : forall (mass : nat -> R) (pos : RF) (cv : colvar) (f : R),
-  Forall (fun p => forall fc, cvc_ft Rops PI mass pos (fst p) (cvc_apply Rops PI mass pos (fst p) fc) = fc) (cv_comps cv) ->
+Lemma thm_inverse_rmsd_rotated : forall (cell : option RV) (mass : nat -> R) (pos : RF) (ids : list nat) (refs : list RV) (rotf : RF -> RM) (jdf : RF -> R) (fc : R),
+  NoDup ids -> length refs = length ids ->
+  (forall v : RV, mvmul Rops (rotf pos) (mtvmul Rops (rotf pos) v) = v) ->
+  rmsdrot_value Rops pos ids refs (rotf pos) <> 0 ->
+  cvc_ft Rops PI cell mass pos (CRmsdRot ids refs rotf jdf) (cvc_apply Rops PI cell mass pos (CRmsdRot ids refs rotf jdf) fc) = fc.
+Proof. exact inv_rmsd_rot. Qed.
+Lemma thm_inverse_eigenvector_rotated : forall (cell : option RV) (mass : nat -> R) (pos : RF) (ids : list nat) (refs evec : list RV) (rotf : RF -> RM) (jdf : RF -> R) (fc : R),
+  NoDup ids -> length evec = length ids ->
+  (forall v : RV, mvmul Rops (rotf pos) (mtvmul Rops (rotf pos) v) = v) ->
+  norm2_sum Rops (eig_vec Rops evec) <> 0 ->
+  cvc_ft Rops PI cell mass pos (CEigenvectorRot ids refs evec rotf jdf) (cvc_apply Rops PI cell mass pos (CEigenvectorRot ids refs evec rotf jdf) fc) = fc.
+Proof. exact inv_eigenvector_rot. Qed.
+Lemma thm_inverse_variable : forall (cell : option RV) (mass : nat -> R) (pos : RF) (cv : colvar) (f : R),
+  Forall (fun p => forall fc, cvc_ft Rops PI cell mass pos (fst p) (cvc_apply Rops PI cell mass pos (fst p) fc) = fc) (cv_comps cv) ->
   ForallOrdPairs (fun p q => forall a, In a (cvc_atoms (fst p)) -> ~ In a (cvc_atoms (fst q))) (cv_comps cv) ->
   cv_sqnorm Rops cv <> 0 ->
-  cv_proj Rops PI mass pos cv (cv_apply Rops PI mass pos cv f) = f.
+  cv_proj Rops PI cell mass pos cv (cv_apply Rops PI cell mass pos cv f) = f.
 Proof. exact cv_inverse. Qed.
-Lemma thm_pm1_combination : forall (mass : nat -> R) (cv : colvar) (pos : RF) (f : R),
+Lemma thm_pm1_combination : forall (cell : option RV) (mass : nat -> R) (cv : colvar) (pos : RF) (f : R),
   cv_comps cv <> [] -> Forall (fun p => snd p = 1 \/ snd p = -1) (cv_comps cv) ->
-  Forall (fun p => forall fc, cvc_ft Rops PI mass pos (fst p) (cvc_apply Rops PI mass pos (fst p) fc) = fc) (cv_comps cv) ->
+  Forall (fun p => forall fc, cvc_ft Rops PI cell mass pos (fst p) (cvc_apply Rops PI cell mass pos (fst p) fc) = fc) (cv_comps cv) ->
   ForallOrdPairs (fun p q => forall a, In a (cvc_atoms (fst p)) -> ~ In a (cvc_atoms (fst q))) (cv_comps cv) ->
-  cv_proj Rops PI mass pos cv (cv_apply Rops PI mass pos cv f) = f /\
-  cv_fj Rops PI mass pos cv =
-    tsum Rops (map (fun p => cvc_jd Rops PI mass pos (fst p) * snd p / ofnat Rops (length (cv_comps cv))) (cv_comps cv)) * cv_kT cv.
+  cv_proj Rops PI cell mass pos cv (cv_apply Rops PI cell mass pos cv f) = f /\
+  cv_fj Rops PI cell mass pos cv =
+    tsum Rops (map (fun p => cvc_jd Rops PI cell mass pos (fst p) * snd p / ofnat Rops (length (cv_comps cv))) (cv_comps cv)) * cv_kT cv.
 Proof. exact pm1_combination. Qed.
-Lemma thm_inverse_lagged : forall (mass : nat -> R) (cv : colvar) (pre : list einput) (s : estate) (i1 i2 : einput),
+Lemma thm_inverse_lagged : forall (cell : option RV) (mass : nat -> R) (cv : colvar) (pre : list einput) (s : estate) (i1 i2 : einput),
   cv_samestep cv = false ->
-  Forall (fun p => forall fc, cvc_ft Rops PI mass (e_pos i1) (fst p) (cvc_apply Rops PI mass (e_pos i1) (fst p) fc) = fc) (cv_comps cv) ->
+  Forall (fun p => forall fc, cvc_ft Rops PI cell mass (e_pos i1) (fst p) (cvc_apply Rops PI cell mass (e_pos i1) (fst p) fc) = fc) (cv_comps cv) ->
   ForallOrdPairs (fun p q => forall a, In a (cvc_atoms (fst p)) -> ~ In a (cvc_atoms (fst q))) (cv_comps cv) ->
   cv_sqnorm Rops cv <> 0 ->
   (forall a, In a (cv_atoms cv) -> e_force i1 a = vzero Rops) ->
-  last_ft (snd (eng_run Rops PI mass cv true s (pre ++ [i1; i2]))) =
-    applied_force Rops cv (e_fb i1) (cv_fj Rops PI mass (e_pos i1) cv) + (if adds_fj cv then cv_fj Rops PI mass (e_pos i1) cv else 0)
-    - (if cv_subtract cv then applied_force Rops cv (e_fb i1) (cv_fj Rops PI mass (e_pos i1) cv) else 0).
-Proof. intros mass cv pre s i1 i2 H Hi Hd Hs Hz. assert (Hok : cv_inv_ok mass (e_pos i1) cv) by (repeat split; assumption). exact (inverse_lagged mass cv pre s i1 i2 H Hok Hz). Qed.
-Lemma thm_inverse_lagged_jacobian : forall (mass : nat -> R) (cv : colvar) (pre : list einput) (s : estate) (i1 i2 : einput),
+  last_ft (snd (eng_run Rops PI cell mass cv true s (pre ++ [i1; i2]))) =
+    applied_force Rops cv (e_fb i1) (cv_fj Rops PI cell mass (e_pos i1) cv) + (if adds_fj cv then cv_fj Rops PI cell mass (e_pos i1) cv else 0)
+    - (if cv_subtract cv then applied_force Rops cv (e_fb i1) (cv_fj Rops PI cell mass (e_pos i1) cv) else 0).
+Proof. intros cell mass cv pre s i1 i2 H Hi Hd Hs Hz. assert (Hok : cv_inv_ok cell mass (e_pos i1) cv) by (repeat split; assumption). exact (inverse_lagged cell mass cv pre s i1 i2 H Hok Hz). Qed.
+Lemma thm_inverse_lagged_jacobian : forall (cell : option RV) (mass : nat -> R) (cv : colvar) (pre : list einput) (s : estate) (i1 i2 : einput),
   cv_samestep cv = false -> cv_hide cv = false -> cv_subtract cv = false ->
-  Forall (fun p => forall fc, cvc_ft Rops PI mass (e_pos i1) (fst p) (cvc_apply Rops PI mass (e_pos i1) (fst p) fc) = fc) (cv_comps cv) ->
+  Forall (fun p => forall fc, cvc_ft Rops PI cell mass (e_pos i1) (fst p) (cvc_apply Rops PI cell mass (e_pos i1) (fst p) fc) = fc) (cv_comps cv) ->
   ForallOrdPairs (fun p q => forall a, In a (cvc_atoms (fst p)) -> ~ In a (cvc_atoms (fst q))) (cv_comps cv) ->
   cv_sqnorm Rops cv <> 0 ->
   (forall a, In a (cv_atoms cv) -> e_force i1 a = vzero Rops) ->
-  last_ft (snd (eng_run Rops PI mass cv true s (pre ++ [i1; i2]))) = e_fb i1 + cv_fj Rops PI mass (e_pos i1) cv.
-Proof. intros mass cv pre s i1 i2 H Hh Hsb Hi Hd Hs Hz. assert (Hok : cv_inv_ok mass (e_pos i1) cv) by (repeat split; assumption). exact (inverse_lagged_jacobian mass cv pre s i1 i2 H Hh Hsb Hok Hz). Qed.
-Lemma thm_inverse_lagged_hidden : forall (mass : nat -> R) (cv : colvar) (pre : list einput) (s : estate) (i1 i2 : einput),
+  last_ft (snd (eng_run Rops PI cell mass cv true s (pre ++ [i1; i2]))) = e_fb i1 + cv_fj Rops PI cell mass (e_pos i1) cv.
+Proof. intros cell mass cv pre s i1 i2 H Hh Hsb Hi Hd Hs Hz. assert (Hok : cv_inv_ok cell mass (e_pos i1) cv) by (repeat split; assumption). exact (inverse_lagged_jacobian cell mass cv pre s i1 i2 H Hh Hsb Hok Hz). Qed.
+Lemma thm_inverse_lagged_hidden : forall (cell : option RV) (mass : nat -> R) (cv : colvar) (pre : list einput) (s : estate) (i1 i2 : einput),
   cv_samestep cv = false -> cv_hide cv = true -> cv_subtract cv = false ->
-  Forall (fun p => forall fc, cvc_ft Rops PI mass (e_pos i1) (fst p) (cvc_apply Rops PI mass (e_pos i1) (fst p) fc) = fc) (cv_comps cv) ->
+  Forall (fun p => forall fc, cvc_ft Rops PI cell mass (e_pos i1) (fst p) (cvc_apply Rops PI cell mass (e_pos i1) (fst p) fc) = fc) (cv_comps cv) ->
   ForallOrdPairs (fun p q => forall a, In a (cvc_atoms (fst p)) -> ~ In a (cvc_atoms (fst q))) (cv_comps cv) ->
   cv_sqnorm Rops cv <> 0 ->
   (forall a, In a (cv_atoms cv) -> e_force i1 a = vzero Rops) ->
-  last_ft (snd (eng_run Rops PI mass cv true s (pre ++ [i1; i2]))) = e_fb i1.
-Proof. intros mass cv pre s i1 i2 H Hh Hsb Hi Hd Hs Hz. assert (Hok : cv_inv_ok mass (e_pos i1) cv) by (repeat split; assumption). exact (inverse_lagged_hidden mass cv pre s i1 i2 H Hh Hsb Hok Hz). Qed.
-Lemma thm_inverse_lagged_T0 : forall (mass : nat -> R) (cv : colvar) (pre : list einput) (s : estate) (i1 i2 : einput),
+  last_ft (snd (eng_run Rops PI cell mass cv true s (pre ++ [i1; i2]))) = e_fb i1.
+Proof. intros cell mass cv pre s i1 i2 H Hh Hsb Hi Hd Hs Hz. assert (Hok : cv_inv_ok cell mass (e_pos i1) cv) by (repeat split; assumption). exact (inverse_lagged_hidden cell mass cv pre s i1 i2 H Hh Hsb Hok Hz). Qed.
+Lemma thm_inverse_lagged_T0 : forall (cell : option RV) (mass : nat -> R) (cv : colvar) (pre : list einput) (s : estate) (i1 i2 : einput),
   cv_samestep cv = false -> cv_kT cv = 0 -> cv_subtract cv = false ->
-  Forall (fun p => forall fc, cvc_ft Rops PI mass (e_pos i1) (fst p) (cvc_apply Rops PI mass (e_pos i1) (fst p) fc) = fc) (cv_comps cv) ->
+  Forall (fun p => forall fc, cvc_ft Rops PI cell mass (e_pos i1) (fst p) (cvc_apply Rops PI cell mass (e_pos i1) (fst p) fc) = fc) (cv_comps cv) ->
   ForallOrdPairs (fun p q => forall a, In a (cvc_atoms (fst p)) -> ~ In a (cvc_atoms (fst q))) (cv_comps cv) ->
   cv_sqnorm Rops cv <> 0 ->
   (forall a, In a (cv_atoms cv) -> e_force i1 a = vzero Rops) ->
-  last_ft (snd (eng_run Rops PI mass cv true s (pre ++ [i1; i2]))) = e_fb i1.
-Proof. intros mass cv pre s i1 i2 H HT Hsb Hi Hd Hs Hz. assert (Hok : cv_inv_ok mass (e_pos i1) cv) by (repeat split; assumption). exact (inverse_lagged_T0 mass cv pre s i1 i2 H HT Hsb Hok Hz). Qed.
-Lemma thm_inverse_same_step : forall (mass : nat -> R) (cv : colvar) (inc : bool) (pre : list einput) (s : estate) (i : einput) (f : R),
+  last_ft (snd (eng_run Rops PI cell mass cv true s (pre ++ [i1; i2]))) = e_fb i1.
+Proof. intros cell mass cv pre s i1 i2 H HT Hsb Hi Hd Hs Hz. assert (Hok : cv_inv_ok cell mass (e_pos i1) cv) by (repeat split; assumption). exact (inverse_lagged_T0 cell mass cv pre s i1 i2 H HT Hsb Hok Hz). Qed.
+Lemma thm_inverse_same_step : forall (cell : option RV) (mass : nat -> R) (cv : colvar) (inc : bool) (pre : list einput) (s : estate) (i : einput) (f : R),
   cv_samestep cv = true ->
-  Forall (fun p => forall fc, cvc_ft Rops PI mass (e_pos i) (fst p) (cvc_apply Rops PI mass (e_pos i) (fst p) fc) = fc) (cv_comps cv) ->
+  Forall (fun p => forall fc, cvc_ft Rops PI cell mass (e_pos i) (fst p) (cvc_apply Rops PI cell mass (e_pos i) (fst p) fc) = fc) (cv_comps cv) ->
   ForallOrdPairs (fun p q => forall a, In a (cvc_atoms (fst p)) -> ~ In a (cvc_atoms (fst q))) (cv_comps cv) ->
   cv_sqnorm Rops cv <> 0 ->
-  (forall a, In a (cv_atoms cv) -> e_force i a = cv_apply Rops PI mass (e_pos i) cv f a) ->
-  last_ft (snd (eng_run Rops PI mass cv inc s (pre ++ [i]))) = f + (if cv_hide cv then 0 else cv_fj Rops PI mass (e_pos i) cv).
-Proof. intros mass cv inc pre s i f H Hi Hd Hs HF. assert (Hok : cv_inv_ok mass (e_pos i) cv) by (repeat split; assumption). exact (inverse_same mass cv inc pre s i f H Hok HF). Qed.
-Lemma thm_linear : forall (mass : nat -> R) (pos : RF) (c : RC) (F G : RF) (a b : R),
-  cvc_ft Rops PI mass pos c (fadd Rops (fscale Rops a F) (fscale Rops b G)) = a * cvc_ft Rops PI mass pos c F + b * cvc_ft Rops PI mass pos c G.
+  (forall a, In a (cv_atoms cv) -> e_force i a = cv_apply Rops PI cell mass (e_pos i) cv f a) ->
+  last_ft (snd (eng_run Rops PI cell mass cv inc s (pre ++ [i]))) = f + (if cv_hide cv then 0 else cv_fj Rops PI cell mass (e_pos i) cv).
+Proof. intros cell mass cv inc pre s i f H Hi Hd Hs HF. assert (Hok : cv_inv_ok cell mass (e_pos i) cv) by (repeat split; assumption). exact (inverse_same cell mass cv inc pre s i f H Hok HF). Qed.
+Lemma thm_linear : forall (cell : option RV) (mass : nat -> R) (pos : RF) (c : RC) (F G : RF) (a b : R),
+  cvc_ft Rops PI cell mass pos c (fadd Rops (fscale Rops a F) (fscale Rops b G)) = a * cvc_ft Rops PI cell mass pos c F + b * cvc_ft Rops PI cell mass pos c G.
 Proof. exact cvc_ft_linear. Qed.
-Lemma thm_linear_variable : forall (mass : nat -> R) (pos : RF) (cv : colvar) (F G : RF) (a b : R),
-  cv_proj Rops PI mass pos cv (fadd Rops (fscale Rops a F) (fscale Rops b G)) = a * cv_proj Rops PI mass pos cv F + b * cv_proj Rops PI mass pos cv G.
+Lemma thm_linear_variable : forall (cell : option RV) (mass : nat -> R) (pos : RF) (cv : colvar) (F G : RF) (a b : R),
+  cv_proj Rops PI cell mass pos cv (fadd Rops (fscale Rops a F) (fscale Rops b G)) = a * cv_proj Rops PI cell mass pos cv F + b * cv_proj Rops PI cell mass pos cv G.
 Proof. exact cv_proj_linear. Qed.
-Lemma thm_local : forall (mass : nat -> R) (pos : RF) (c : RC) (F G : RF),
-  (forall a, In a (cvc_atoms c) -> F a = G a) -> cvc_ft Rops PI mass pos c F = cvc_ft Rops PI mass pos c G.
+Lemma thm_local : forall (cell : option RV) (mass : nat -> R) (pos : RF) (c : RC) (F G : RF),
+  (forall a, In a (cvc_atoms c) -> F a = G a) -> cvc_ft Rops PI cell mass pos c F = cvc_ft Rops PI cell mass pos c G.
 Proof. exact cvc_ft_local. Qed.
-Lemma thm_local_measured : forall (mass : nat -> R) (pos : RF) (c : RC) (F G : RF),
-  (forall a, In a (cvc_measured c) -> F a = G a) -> cvc_ft Rops PI mass pos c F = cvc_ft Rops PI mass pos c G.
+Lemma thm_local_measured : forall (cell : option RV) (mass : nat -> R) (pos : RF) (c : RC) (F G : RF),
+  (forall a, In a (cvc_measured c) -> F a = G a) -> cvc_ft Rops PI cell mass pos c F = cvc_ft Rops PI cell mass pos c G.
 Proof. exact cvc_ft_local_measured. Qed.
-Lemma thm_local_variable : forall (mass : nat -> R) (pos : RF) (cv : colvar) (F G : RF),
-  (forall a, In a (cv_atoms cv) -> F a = G a) -> cv_proj Rops PI mass pos cv F = cv_proj Rops PI mass pos cv G.
+Lemma thm_local_variable : forall (cell : option RV) (mass : nat -> R) (pos : RF) (cv : colvar) (F G : RF),
+  (forall a, In a (cv_atoms cv) -> F a = G a) -> cv_proj Rops PI cell mass pos cv F = cv_proj Rops PI cell mass pos cv G.
 Proof. exact cv_proj_local. Qed.
-Lemma thm_local_report_lagged : forall (mass : nat -> R) (cv : colvar) (inc : bool) (pre pre' : list einput) (s s' : estate) (i1 i1' i2 i2' : einput),
+Lemma thm_local_report_lagged : forall (cell : option RV) (mass : nat -> R) (cv : colvar) (inc : bool) (pre pre' : list einput) (s s' : estate) (i1 i1' i2 i2' : einput),
   cv_samestep cv = false -> e_pos i1 = e_pos i1' -> e_fb i1 = e_fb i1' ->
   (forall a, In a (cv_atoms cv) -> e_force i1 a = e_force i1' a) ->
-  last_ft (snd (eng_run Rops PI mass cv inc s (pre ++ [i1; i2]))) = last_ft (snd (eng_run Rops PI mass cv inc s' (pre' ++ [i1'; i2']))).
+  last_ft (snd (eng_run Rops PI cell mass cv inc s (pre ++ [i1; i2]))) = last_ft (snd (eng_run Rops PI cell mass cv inc s' (pre' ++ [i1'; i2']))).
 Proof. exact local_lagged. Qed.
-Lemma thm_local_report_same_step : forall (mass : nat -> R) (cv : colvar) (inc : bool) (pre pre' : list einput) (s s' : estate) (i i' : einput),
+Lemma thm_local_report_same_step : forall (cell : option RV) (mass : nat -> R) (cv : colvar) (inc : bool) (pre pre' : list einput) (s s' : estate) (i i' : einput),
   cv_samestep cv = true -> e_pos i = e_pos i' ->
   (forall a, In a (cv_atoms cv) -> e_force i a = e_force i' a) ->
-  last_ft (snd (eng_run Rops PI mass cv inc s (pre ++ [i]))) = last_ft (snd (eng_run Rops PI mass cv inc s' (pre' ++ [i']))).
+  last_ft (snd (eng_run Rops PI cell mass cv inc s (pre ++ [i]))) = last_ft (snd (eng_run Rops PI cell mass cv inc s' (pre' ++ [i']))).
 Proof. exact local_same. Qed.
-Lemma thm_subtract_applied : forall (mass : nat -> R) (cv : colvar) (pre : list einput) (s : estate) (i1 i2 : einput),
+Lemma thm_subtract_applied : forall (cell : option RV) (mass : nat -> R) (cv : colvar) (pre : list einput) (s : estate) (i1 i2 : einput),
   cv_samestep cv = false -> cv_subtract cv = true ->
-  Forall (fun p => forall fc, cvc_ft Rops PI mass (e_pos i1) (fst p) (cvc_apply Rops PI mass (e_pos i1) (fst p) fc) = fc) (cv_comps cv) ->
+  Forall (fun p => forall fc, cvc_ft Rops PI cell mass (e_pos i1) (fst p) (cvc_apply Rops PI cell mass (e_pos i1) (fst p) fc) = fc) (cv_comps cv) ->
   ForallOrdPairs (fun p q => forall a, In a (cvc_atoms (fst p)) -> ~ In a (cvc_atoms (fst q))) (cv_comps cv) ->
   cv_sqnorm Rops cv <> 0 ->
-  last_ft (snd (eng_run Rops PI mass cv true s (pre ++ [i1; i2]))) =
-    cv_proj Rops PI mass (e_pos i1) cv (e_force i1) + (if cv_hide cv then 0 else cv_fj Rops PI mass (e_pos i1) cv).
-Proof. intros mass cv pre s i1 i2 H Hsb Hi Hd Hs. assert (Hok : cv_inv_ok mass (e_pos i1) cv) by (repeat split; assumption). exact (subtract_applied mass cv pre s i1 i2 H Hsb Hok). Qed.
-Lemma thm_without_subtract : forall (mass : nat -> R) (cv : colvar) (pre : list einput) (s : estate) (i1 i2 : einput),
+  last_ft (snd (eng_run Rops PI cell mass cv true s (pre ++ [i1; i2]))) =
+    cv_proj Rops PI cell mass (e_pos i1) cv (e_force i1) + (if cv_hide cv then 0 else cv_fj Rops PI cell mass (e_pos i1) cv).
+Proof. intros cell mass cv pre s i1 i2 H Hsb Hi Hd Hs. assert (Hok : cv_inv_ok cell mass (e_pos i1) cv) by (repeat split; assumption). exact (subtract_applied cell mass cv pre s i1 i2 H Hsb Hok). Qed.
+Lemma thm_without_subtract : forall (cell : option RV) (mass : nat -> R) (cv : colvar) (pre : list einput) (s : estate) (i1 i2 : einput),
   cv_samestep cv = false -> cv_subtract cv = false ->
-  Forall (fun p => forall fc, cvc_ft Rops PI mass (e_pos i1) (fst p) (cvc_apply Rops PI mass (e_pos i1) (fst p) fc) = fc) (cv_comps cv) ->
+  Forall (fun p => forall fc, cvc_ft Rops PI cell mass (e_pos i1) (fst p) (cvc_apply Rops PI cell mass (e_pos i1) (fst p) fc) = fc) (cv_comps cv) ->
   ForallOrdPairs (fun p q => forall a, In a (cvc_atoms (fst p)) -> ~ In a (cvc_atoms (fst q))) (cv_comps cv) ->
   cv_sqnorm Rops cv <> 0 ->
-  last_ft (snd (eng_run Rops PI mass cv true s (pre ++ [i1; i2]))) =
-    cv_proj Rops PI mass (e_pos i1) cv (e_force i1) + applied_force Rops cv (e_fb i1) (cv_fj Rops PI mass (e_pos i1) cv)
-    + (if adds_fj cv then cv_fj Rops PI mass (e_pos i1) cv else 0).
-Proof. intros mass cv pre s i1 i2 H Hsb Hi Hd Hs. assert (Hok : cv_inv_ok mass (e_pos i1) cv) by (repeat split; assumption). exact (without_subtract mass cv pre s i1 i2 H Hsb Hok). Qed.
-Lemma thm_timing : forall (mass : nat -> R) (cv : colvar) (inc : bool) (i1 i2 : einput),
+  last_ft (snd (eng_run Rops PI cell mass cv true s (pre ++ [i1; i2]))) =
+    cv_proj Rops PI cell mass (e_pos i1) cv (e_force i1) + applied_force Rops cv (e_fb i1) (cv_fj Rops PI cell mass (e_pos i1) cv)
+    + (if adds_fj cv then cv_fj Rops PI cell mass (e_pos i1) cv else 0).
+Proof. intros cell mass cv pre s i1 i2 H Hsb Hi Hd Hs. assert (Hok : cv_inv_ok cell mass (e_pos i1) cv) by (repeat split; assumption). exact (without_subtract cell mass cv pre s i1 i2 H Hsb Hok). Qed.
+Lemma thm_timing : forall (cell : option RV) (mass : nat -> R) (cv : colvar) (inc : bool) (i1 i2 : einput),
   cv_samestep cv = false -> forall (pre : list einput) (s : estate),
-  last_ft (snd (eng_run Rops PI mass cv inc s (pre ++ [i1; i2]))) =
-    cv_proj Rops PI mass (e_pos i1) cv
-      (if inc then fadd Rops (e_force i1) (cv_apply Rops PI mass (e_pos i1) cv (applied_force Rops cv (e_fb i1) (cv_fj Rops PI mass (e_pos i1) cv))) else e_force i1)
-    + (if adds_fj cv then cv_fj Rops PI mass (e_pos i1) cv else 0)
-    - (if cv_subtract cv then applied_force Rops cv (e_fb i1) (cv_fj Rops PI mass (e_pos i1) cv) else 0).
+  last_ft (snd (eng_run Rops PI cell mass cv inc s (pre ++ [i1; i2]))) =
+    cv_proj Rops PI cell mass (e_pos i1) cv
+      (if inc then fadd Rops (e_force i1) (cv_apply Rops PI cell mass (e_pos i1) cv (applied_force Rops cv (e_fb i1) (cv_fj Rops PI cell mass (e_pos i1) cv))) else e_force i1)
+    + (if adds_fj cv then cv_fj Rops PI cell mass (e_pos i1) cv else 0)
+    - (if cv_subtract cv then applied_force Rops cv (e_fb i1) (cv_fj Rops PI cell mass (e_pos i1) cv) else 0).
 Proof. exact history_lag. Qed.
-Lemma thm_timing_same_step : forall (mass : nat -> R) (cv : colvar) (inc : bool) (i : einput),
+Lemma thm_timing_same_step : forall (cell : option RV) (mass : nat -> R) (cv : colvar) (inc : bool) (i : einput),
   cv_samestep cv = true -> forall (pre : list einput) (s : estate),
-  last_ft (snd (eng_run Rops PI mass cv inc s (pre ++ [i]))) =
-    cv_proj Rops PI mass (e_pos i) cv (e_force i) + (if cv_hide cv then 0 else cv_fj Rops PI mass (e_pos i) cv).
+  last_ft (snd (eng_run Rops PI cell mass cv inc s (pre ++ [i]))) =
+    cv_proj Rops PI cell mass (e_pos i) cv (e_force i) + (if cv_hide cv then 0 else cv_fj Rops PI cell mass (e_pos i) cv).
 Proof. exact history_same. Qed.
-Lemma thm_timing_first_step : forall (mass : nat -> R) (cv : colvar) (inc : bool) (i : einput),
-  cv_samestep cv = false -> last_ft (snd (eng_run Rops PI mass cv inc (eng_init Rops) [i])) = 0.
+Lemma thm_timing_first_step : forall (cell : option RV) (mass : nat -> R) (cv : colvar) (inc : bool) (i : einput),
+  cv_samestep cv = false -> last_ft (snd (eng_run Rops PI cell mass cv inc (eng_init Rops) [i])) = 0.
 Proof. exact history_first_lag. Qed.
-Lemma thm_jacobian_closed_forms : forall (mass : nat -> R) (pos : RF),
-  (forall g1 g2 os, vnorm Rops (dist_v Rops mass pos g1 g2) <> 0 ->
-     cvc_jd Rops PI mass pos (CDistance g1 g2 os) = 2 / cvc_value Rops PI mass pos (CDistance g1 g2 os)) /\
-  (forall gm gr gr2 ax os, cvc_jd Rops PI mass pos (CDistanceZ gm gr gr2 ax os) = 0) /\
-  (forall gm gr gr2 ax os, dxy_value Rops mass pos gm gr gr2 ax <> 0 ->
-     cvc_jd Rops PI mass pos (CDistanceXY gm gr gr2 ax os) = 1 / cvc_value Rops PI mass pos (CDistanceXY gm gr gr2 ax os)) /\
-  (forall g1 g2 g3 g4 os, cvc_jd Rops PI mass pos (CDihedral g1 g2 g3 g4 os) = 0) /\
+Lemma thm_jacobian_closed_forms : forall (cell : option RV) (mass : nat -> R) (pos : RF),
+  (forall g1 g2 os, vnorm Rops (dist_v Rops cell mass pos g1 g2) <> 0 ->
+     cvc_jd Rops PI cell mass pos (CDistance g1 g2 os) = 2 / cvc_value Rops PI cell mass pos (CDistance g1 g2 os)) /\
+  (forall gm gr gr2 ax os, cvc_jd Rops PI cell mass pos (CDistanceZ gm gr gr2 ax os) = 0) /\
+  (forall gm gr gr2 ax os, dxy_value Rops cell mass pos gm gr gr2 ax <> 0 ->
+     cvc_jd Rops PI cell mass pos (CDistanceXY gm gr gr2 ax os) = 1 / cvc_value Rops PI cell mass pos (CDistanceXY gm gr gr2 ax os)) /\
+  (forall g1 g2 g3 g4 os, cvc_jd Rops PI cell mass pos (CDihedral g1 g2 g3 g4 os) = 0) /\
   (forall ids, gyr_value Rops pos ids <> 0 ->
-     cvc_jd Rops PI mass pos (CGyration ids) = (3 * ofnat Rops (length ids) - 4) / cvc_value Rops PI mass pos (CGyration ids)) /\
+     cvc_jd Rops PI cell mass pos (CGyration ids) = (3 * ofnat Rops (length ids) - 4) / cvc_value Rops PI cell mass pos (CGyration ids)) /\
   (forall ids refs, 0 < rmsd_value Rops pos ids refs None ->
-     cvc_jd Rops PI mass pos (CRmsd ids refs None) = (3 * ofnat Rops (length ids) - 1) / cvc_value Rops PI mass pos (CRmsd ids refs None)) /\
+     cvc_jd Rops PI cell mass pos (CRmsd ids refs None) = (3 * ofnat Rops (length ids) - 1) / cvc_value Rops PI cell mass pos (CRmsd ids refs None)) /\
   (forall ids refs rc, 0 < rmsd_value Rops pos ids refs (Some rc) ->
-     cvc_jd Rops PI mass pos (CRmsd ids refs (Some rc)) = (3 * ofnat Rops (length ids) - 4) / cvc_value Rops PI mass pos (CRmsd ids refs (Some rc))) /\
-  (forall ids refs evec c, cvc_jd Rops PI mass pos (CEigenvector ids refs evec c) = 0).
-Proof. intros mass pos. repeat split.
+     cvc_jd Rops PI cell mass pos (CRmsd ids refs (Some rc)) = (3 * ofnat Rops (length ids) - 4) / cvc_value Rops PI cell mass pos (CRmsd ids refs (Some rc))) /\
+  (forall ids refs evec c, cvc_jd Rops PI cell mass pos (CEigenvector ids refs evec c) = 0).
+Proof. intros cell mass pos. repeat split.
   - intros g1 g2 os H. cbn [cvc_jd cvc_value]. unfold inv_or_zero. rs.
-    destruct (Reqb' (vnorm Rops (dist_v Rops mass pos g1 g2)) 0) eqn:E; [apply Reqb_true in E; contradiction|reflexivity].
+    destruct (Reqb' (vnorm Rops (dist_v Rops cell mass pos g1 g2)) 0) eqn:E; [apply Reqb_true in E; contradiction|reflexivity].
   - intros gm gr gr2 ax os H. cbn [cvc_jd cvc_value]. unfold inv_or_zero. rs.
-    destruct (Reqb' (dxy_value Rops mass pos gm gr gr2 ax) 0) eqn:E; [apply Reqb_true in E; contradiction|reflexivity].
+    destruct (Reqb' (dxy_value Rops cell mass pos gm gr gr2 ax) 0) eqn:E; [apply Reqb_true in E; contradiction|reflexivity].
   - intros ids H. cbn [cvc_jd cvc_value]. unfold inv_or_zero. rs.
     destruct (Reqb' (gyr_value Rops pos ids) 0) eqn:E; [apply Reqb_true in E; contradiction|reflexivity].
   - intros ids refs H. cbn [cvc_jd cvc_value]. rs. apply Rltb_true in H. rewrite H. f_equal. ring.
   - intros ids refs rc H. cbn [cvc_jd cvc_value]. rs. apply Rltb_true in H. rewrite H. f_equal. ring. Qed.
+Lemma thm_jacobian_angle : forall (cell : option RV) (mass : nat -> R) (pos : RF) (g1 g2 g3 : RG) (os : bool),
+  ang_cos Rops cell mass pos g1 g2 g3 * ang_cos Rops cell mass pos g1 g2 g3 < 1 ->
+  cvc_jd Rops PI cell mass pos (CAngle g1 g2 g3 os) =
+    PI / 180 * (ang_cos Rops cell mass pos g1 g2 g3 / sqrt (1 - ang_cos Rops cell mass pos g1 g2 g3 * ang_cos Rops cell mass pos g1 g2 g3)).
+Proof. exact angle_jd_closed. Qed.
 
 (* ---- fully instantiated history statements: the premises of the history theorems are satisfiable ---- *)
 Lemma ex_split_ok pos h sb sm kT :
-  Forall (fun p => forall fc, cvc_ft Rops PI ex_mass pos (fst p) (cvc_apply Rops PI ex_mass pos (fst p) fc) = fc) (cv_comps (ex_cv h sb sm kT)) /\
+  Forall (fun p => forall fc, cvc_ft Rops PI None ex_mass pos (fst p) (cvc_apply Rops PI None ex_mass pos (fst p) fc) = fc) (cv_comps (ex_cv h sb sm kT)) /\
   ForallOrdPairs (fun p q => forall a, In a (cvc_atoms (fst p)) -> ~ In a (cvc_atoms (fst q))) (cv_comps (ex_cv h sb sm kT)) /\
   cv_sqnorm Rops (ex_cv h sb sm kT) <> 0.
 Proof. exact (ex_cv_ok pos h sb sm kT). Qed.
 Lemma ex_lagged_jacobian pre s pos fb1 i2 kT :
-  last_ft (snd (eng_run Rops PI ex_mass (ex_cv false false false kT) true s (pre ++ [mkEinput pos (fzero Rops) fb1; i2])))
-  = fb1 + cv_fj Rops PI ex_mass pos (ex_cv false false false kT).
+  last_ft (snd (eng_run Rops PI None ex_mass (ex_cv false false false kT) true s (pre ++ [mkEinput pos (fzero Rops) fb1; i2])))
+  = fb1 + cv_fj Rops PI None ex_mass pos (ex_cv false false false kT).
 Proof.
   destruct (ex_split_ok pos false false false kT) as (A & B & C).
-  exact (thm_inverse_lagged_jacobian ex_mass (ex_cv false false false kT) pre s (mkEinput pos (fzero Rops) fb1) i2 eq_refl eq_refl eq_refl A B C (fun _ _ => eq_refl)).
+  exact (thm_inverse_lagged_jacobian None ex_mass (ex_cv false false false kT) pre s (mkEinput pos (fzero Rops) fb1) i2 eq_refl eq_refl eq_refl A B C (fun _ _ => eq_refl)).
 Qed.
 Lemma ex_lagged_hidden pre s pos fb1 i2 kT :
-  last_ft (snd (eng_run Rops PI ex_mass (ex_cv true false false kT) true s (pre ++ [mkEinput pos (fzero Rops) fb1; i2]))) = fb1.
+  last_ft (snd (eng_run Rops PI None ex_mass (ex_cv true false false kT) true s (pre ++ [mkEinput pos (fzero Rops) fb1; i2]))) = fb1.
 Proof.
   destruct (ex_split_ok pos true false false kT) as (A & B & C).
-  exact (thm_inverse_lagged_hidden ex_mass (ex_cv true false false kT) pre s (mkEinput pos (fzero Rops) fb1) i2 eq_refl eq_refl eq_refl A B C (fun _ _ => eq_refl)).
+  exact (thm_inverse_lagged_hidden None ex_mass (ex_cv true false false kT) pre s (mkEinput pos (fzero Rops) fb1) i2 eq_refl eq_refl eq_refl A B C (fun _ _ => eq_refl)).
 Qed.
 Lemma ex_lagged_T0 pre s pos fb1 i2 h :
-  last_ft (snd (eng_run Rops PI ex_mass (ex_cv h false false 0) true s (pre ++ [mkEinput pos (fzero Rops) fb1; i2]))) = fb1.
+  last_ft (snd (eng_run Rops PI None ex_mass (ex_cv h false false 0) true s (pre ++ [mkEinput pos (fzero Rops) fb1; i2]))) = fb1.
 Proof.
   destruct (ex_split_ok pos h false false 0) as (A & B & C).
-  exact (thm_inverse_lagged_T0 ex_mass (ex_cv h false false 0) pre s (mkEinput pos (fzero Rops) fb1) i2 eq_refl eq_refl eq_refl A B C (fun _ _ => eq_refl)).
+  exact (thm_inverse_lagged_T0 None ex_mass (ex_cv h false false 0) pre s (mkEinput pos (fzero Rops) fb1) i2 eq_refl eq_refl eq_refl A B C (fun _ _ => eq_refl)).
 Qed.
 Lemma ex_same_step inc pre s pos fb f h sb kT :
-  last_ft (snd (eng_run Rops PI ex_mass (ex_cv h sb true kT) inc s
-                  (pre ++ [mkEinput pos (cv_apply Rops PI ex_mass pos (ex_cv h sb true kT) f) fb])))
-  = f + (if h then 0 else cv_fj Rops PI ex_mass pos (ex_cv h sb true kT)).
+  last_ft (snd (eng_run Rops PI None ex_mass (ex_cv h sb true kT) inc s
+                  (pre ++ [mkEinput pos (cv_apply Rops PI None ex_mass pos (ex_cv h sb true kT) f) fb])))
+  = f + (if h then 0 else cv_fj Rops PI None ex_mass pos (ex_cv h sb true kT)).
 Proof.
   destruct (ex_split_ok pos h sb true kT) as (A & B & C).
-  exact (thm_inverse_same_step ex_mass (ex_cv h sb true kT) inc pre s (mkEinput pos (cv_apply Rops PI ex_mass pos (ex_cv h sb true kT) f) fb) f eq_refl A B C (fun _ _ => eq_refl)).
+  exact (thm_inverse_same_step None ex_mass (ex_cv h sb true kT) inc pre s (mkEinput pos (cv_apply Rops PI None ex_mass pos (ex_cv h sb true kT) f) fb) f eq_refl A B C (fun _ _ => eq_refl)).
 Qed.
 Lemma ex_subtract pre s pos F fb1 i2 h kT :
-  last_ft (snd (eng_run Rops PI ex_mass (ex_cv h true false kT) true s (pre ++ [mkEinput pos F fb1; i2])))
-  = cv_proj Rops PI ex_mass pos (ex_cv h true false kT) F + (if h then 0 else cv_fj Rops PI ex_mass pos (ex_cv h true false kT)).
+  last_ft (snd (eng_run Rops PI None ex_mass (ex_cv h true false kT) true s (pre ++ [mkEinput pos F fb1; i2])))
+  = cv_proj Rops PI None ex_mass pos (ex_cv h true false kT) F + (if h then 0 else cv_fj Rops PI None ex_mass pos (ex_cv h true false kT)).
 Proof.
   destruct (ex_split_ok pos h true false kT) as (A & B & C).
-  exact (thm_subtract_applied ex_mass (ex_cv h true false kT) pre s (mkEinput pos F fb1) i2 eq_refl eq_refl A B C).
+  exact (thm_subtract_applied None ex_mass (ex_cv h true false kT) pre s (mkEinput pos F fb1) i2 eq_refl eq_refl A B C).
 Qed.
